@@ -500,6 +500,113 @@ theorem insertCF_fwd {sc : Bool} {o : Nat} {n : ν} {t t' : Table ν} (hi : inse
       · exact Or.inl ⟨r, hr, hrs.1.trans hs.1.symm, hrs.2.1.trans hs.2.1.symm, hrs.2.2.trans hs.2.2.symm⟩
       · exact Or.inr ⟨hs.2.1.trans h1, hs.2.2.trans h2⟩
 
+/-! #### the payload column -/
+
+theorem sdRow_data (sc : Bool) (n : ν) (r x : Row ν) : (sdRow sc n r x).data = x.data := by
+  unfold sdRow; split <;> (try split) <;> rfl
+
+/-- every row of `t'` has the name and the payload of a row of `t` -/
+def NameData (t t' : Table ν) : Prop := ∀ r' ∈ t', ∃ r ∈ t, r.name = r'.name ∧ r.data = r'.data
+
+theorem NameData.refl (t : Table ν) : NameData t t := fun r h => ⟨r, h, rfl, rfl⟩
+
+theorem NameData.filter (p : Row ν → Bool) (t : Table ν) : NameData t (t.filter p) :=
+  fun r h => ⟨r, (List.mem_filter.mp h).1, rfl, rfl⟩
+
+theorem setDefaultCF_nameData (sc : Bool) (n : ν) (t : Table ν) : NameData t (setDefaultCF sc n t) := by
+  intro r' h
+  cases hf : t.find? (fun r => r.name = n) with
+  | none => rw [setDefaultCF, hf] at h; exact ⟨r', h, rfl, rfl⟩
+  | some r0 =>
+    rw [setDefaultCF_some hf, List.mem_map] at h
+    obtain ⟨r, hr, rfl⟩ := h
+    exact ⟨r, hr, (sdRow_name sc n r0 r).symm, (sdRow_data sc n r0 r).symm⟩
+
+/-- the rows of an insert's result: the old ones, or the new one (named `n`, payload 0) -/
+theorem insertCF_nameData {sc : Bool} {o : Nat} {n : ν} {t t' : Table ν} (hi : insertCF sc o n t = some t')
+    {r' : Row ν} (h : r' ∈ t') : (∃ r ∈ t, r.name = r'.name ∧ r.data = r'.data) ∨ r'.name = n := by
+  unfold insertCF at hi
+  split at hi
+  · cases hi
+  · simp only [Option.some.injEq] at hi
+    subst hi
+    have key : ∀ x ∈ t ++ [newRow o n t], (∃ r ∈ t, r.name = x.name ∧ r.data = x.data) ∨ x.name = n := by
+      intro x hx
+      rw [List.mem_append] at hx
+      rcases hx with hx | hx
+      · exact Or.inl ⟨x, hx, rfl, rfl⟩
+      · simp at hx; subst hx; exact Or.inr rfl
+    split at h
+    · exact key r' h
+    · obtain ⟨x, hx, hn, hd⟩ := setDefaultCF_nameData sc n _ r' h
+      rcases key x hx with ⟨r, hr, h1, h2⟩ | h1
+      · exact Or.inl ⟨r, hr, h1.trans hn, h2.trans hd⟩
+      · exact Or.inr (hn.symm.trans h1)
+
+def sdtRow (n : ν) (b : Nat) (r : Row ν) : Row ν := if r.name = n then { r with data := b } else r
+
+theorem setData_eq (n : ν) (b : Nat) (t : Table ν) : setData n b t = t.map (sdtRow n b) := rfl
+
+theorem sdtRow_name (n : ν) (b : Nat) (r : Row ν) : (sdtRow n b r).name = r.name := by unfold sdtRow; split <;> rfl
+theorem sdtRow_rid (n : ν) (b : Nat) (r : Row ν) : (sdtRow n b r).rid = r.rid := by unfold sdtRow; split <;> rfl
+theorem sdtRow_owner (n : ν) (b : Nat) (r : Row ν) : (sdtRow n b r).owner = r.owner := by unfold sdtRow; split <;> rfl
+theorem sdtRow_dflt (n : ν) (b : Nat) (r : Row ν) : (sdtRow n b r).dflt = r.dflt := by unfold sdtRow; split <;> rfl
+
+theorem hasDefault_setData (sc : Bool) (o : Nat) (n : ν) (b : Nat) (t : Table ν) :
+    hasDefault sc o (setData n b t) = hasDefault sc o t := by
+  simp [hasDefault, setData_eq, List.any_map, Function.comp_def, sdtRow_dflt, sdtRow_owner]
+
+theorem setData_fwd (n : ν) (b : Nat) (t : Table ν) : ColsSub (setData n b t) t := by
+  intro r' h
+  rw [setData_eq, List.mem_map] at h
+  obtain ⟨r, hr, rfl⟩ := h
+  exact ⟨r, hr, sdtRow_rid n b r, sdtRow_owner n b r, sdtRow_name n b r⟩
+
+theorem setData_bwd (n : ν) (b : Nat) (t : Table ν) : ColsSub t (setData n b t) := by
+  intro r h
+  exact ⟨sdtRow n b r, by rw [setData_eq]; exact List.mem_map_of_mem h,
+    (sdtRow_rid n b r).symm, (sdtRow_owner n b r).symm, (sdtRow_name n b r).symm⟩
+
+/-- a row of `setData n b t`: named `n` with payload `b`, or a row of `t` with another name -/
+theorem setData_mem {n : ν} {b : Nat} {t : Table ν} {r' : Row ν} (h : r' ∈ setData n b t) :
+    (r'.name = n ∧ r'.data = b) ∨ (r' ∈ t ∧ r'.name ≠ n) := by
+  rw [setData_eq, List.mem_map] at h
+  obtain ⟨r, hr, rfl⟩ := h
+  unfold sdtRow
+  split
+  · rename_i hn; exact Or.inl ⟨hn, rfl⟩
+  · rename_i hn; exact Or.inr ⟨hr, hn⟩
+
+theorem TabInv.setData {sc : Bool} {T : Tab ν} {t' : Table ν} (n : ν) (b : Nat)
+    (h : TabInv sc (T.apply sc fun _ => t')) : TabInv sc (T.apply sc fun _ => setData n b t') := by
+  have hl : (T.apply sc fun _ => Keychain.setData n b t').lost = (T.apply sc fun _ => t').lost := by
+    simp only [Tab.apply, hasDefault_setData]
+  refine ⟨?_, ?_, ?_, ?_⟩
+  · have := h.names
+    simp only [Tab.apply] at this ⊢
+    rw [namesU_iff] at this ⊢
+    rwa [setData_eq, List.map_map, show ((fun r : Row ν => r.name) ∘ sdtRow n b) = (fun r => r.name) from
+      funext fun r => sdtRow_name n b r]
+  · have := h.rids
+    simp only [Tab.apply] at this ⊢
+    rw [ridsU_iff] at this ⊢
+    rwa [setData_eq, List.map_map, show ((fun r : Row ν => r.rid) ∘ sdtRow n b) = (fun r => r.rid) from
+      funext fun r => sdtRow_rid n b r]
+  · have := h.defu
+    simp only [Tab.apply] at this ⊢
+    rw [setData_eq, DefU, List.pairwise_map]
+    refine List.Pairwise.imp ?_ this
+    intro a c hac
+    simpa only [sdtRow_dflt, sdtRow_owner] using hac
+  · intro r' hr' hnd
+    rw [hl]
+    simp only [Tab.apply] at hr' hnd
+    rw [setData_eq, List.mem_map] at hr'
+    obtain ⟨r, hr, rfl⟩ := hr'
+    rw [sdtRow_owner] at hnd ⊢
+    rw [hasDefault_setData] at hnd
+    exact h.lost r hr hnd
+
 end TableLevel
 /-! ### Part 2: Hoare logic for `M` (postcondition for normal return, postcondition per exception) -/
 
@@ -601,6 +708,95 @@ theorem Pres.ite {I : Sys → Prop} {c : Prop} [Decidable c] {a b : M α} (ha : 
 
 end Hoare
 
+/-! ### the private-key directory -/
+
+theorem fileGet_nil (f : FileName) : fileGet [] f = none := rfl
+
+theorem fileGet_cons (e : FileName × Nat) (t : List (FileName × Nat)) (f : FileName) :
+    fileGet (e :: t) f = if e.1 = f then some e.2 else fileGet t f := by
+  unfold fileGet
+  rw [List.find?_cons]
+  by_cases h : e.1 = f <;> simp [h]
+
+theorem fileGet_some_mem {t : List (FileName × Nat)} {f : FileName} {p : Nat} (h : fileGet t f = some p) :
+    (f, p) ∈ t := by
+  induction t with
+  | nil => simp [fileGet_nil] at h
+  | cons e r ih =>
+    rw [fileGet_cons] at h
+    split at h
+    · rename_i he
+      simp only [Option.some.injEq] at h
+      rw [← he, ← h]; exact List.mem_cons_self
+    · exact List.mem_cons_of_mem _ (ih h)
+
+theorem fileGet_filter {t : List (FileName × Nat)} {q : FileName × Nat → Bool} {f : FileName}
+    (h : ∀ e ∈ t, e.1 = f → q e = true) : fileGet (t.filter q) f = fileGet t f := by
+  induction t with
+  | nil => rfl
+  | cons e r ih =>
+    have ih := ih fun x hx => h x (List.mem_cons_of_mem _ hx)
+    rw [List.filter_cons]
+    by_cases he : e.1 = f
+    · rw [h e List.mem_cons_self he]
+      simp [fileGet_cons, he]
+    · split
+      · simp [fileGet_cons, he, ih]
+      · simp [fileGet_cons, he, ih]
+
+theorem fileGet_filter_none {t : List (FileName × Nat)} {q : FileName × Nat → Bool} {f : FileName}
+    (h : ∀ e ∈ t, e.1 = f → q e = false) : fileGet (t.filter q) f = none := by
+  induction t with
+  | nil => rfl
+  | cons e r ih =>
+    have ih := ih fun x hx => h x (List.mem_cons_of_mem _ hx)
+    rw [List.filter_cons]
+    by_cases he : e.1 = f
+    · rw [h e List.mem_cons_self he]
+      simpa using ih
+    · split
+      · simp [fileGet_cons, he, ih]
+      · exact ih
+
+theorem fileGet_append (t u : List (FileName × Nat)) (f : FileName) :
+    fileGet (t ++ u) f = (fileGet t f).or (fileGet u f) := by
+  induction t with
+  | nil => simp [fileGet_nil]
+  | cons e r ih =>
+    rw [List.cons_append, fileGet_cons, fileGet_cons]
+    split <;> simp [ih]
+
+theorem fileGet_remove_ne {t : List (FileName × Nat)} {f f' : FileName} (h : f' ≠ f) :
+    fileGet (removeFile t f) f' = fileGet t f' :=
+  fileGet_filter fun e _ he => by simp [he, h]
+
+theorem fileGet_remove_self (t : List (FileName × Nat)) (f : FileName) : fileGet (removeFile t f) f = none :=
+  fileGet_filter_none fun e _ he => by simp [he]
+
+theorem fileGet_write (t : List (FileName × Nat)) (f f' : FileName) (p : Nat) :
+    fileGet (writeFile t f p) f' = if f' = f then some p else fileGet t f' := by
+  unfold writeFile
+  rw [fileGet_append]
+  by_cases h : f' = f
+  · subst h
+    rw [fileGet_remove_self]
+    simp [fileGet_cons, fileGet_nil]
+  · rw [fileGet_remove_ne h]
+    have h' : ¬ f = f' := fun e => h e.symm
+    simp [fileGet_cons, fileGet_nil, h, h']
+
+theorem mem_writeFile {t : List (FileName × Nat)} {f : FileName} {p : Nat} {e : FileName × Nat}
+    (h : e ∈ writeFile t f p) : e ∈ t ∨ e = (f, p) := by
+  unfold writeFile removeFile at h
+  rw [List.mem_append] at h
+  rcases h with h | h
+  · exact Or.inl (List.mem_filter.mp h).1
+  · simp at h; exact Or.inr h
+
+theorem fileHas_iff {t : List (FileName × Nat)} {f : FileName} : fileHas t f = true ↔ ∃ p, fileGet t f = some p := by
+  unfold fileHas; rw [Option.isSome_iff_exists]
+
+
 /-! ### Part 3: the system invariant and its preservation by every operation (with or without faults) -/
 
 structure DbInv (d : Db) : Prop where
@@ -616,6 +812,12 @@ structure Linked (d : Db) : Prop where
   certKey : ∀ c ∈ d.certs.rows, ∃ k ∈ d.keys.rows, k.rid = c.owner
 
 theorem Linked.empty : Linked Db.empty := ⟨(fun _ h => by cases h), (fun _ h => by cases h)⟩
+
+theorem ColsSub.trans {ν : Type} {a b c : Table ν} (h1 : ColsSub a b) (h2 : ColsSub b c) : ColsSub a c := by
+  intro r hr
+  obtain ⟨r1, hr1, hs1⟩ := h1 r hr
+  obtain ⟨r2, hr2, hs2⟩ := h2 r1 hr1
+  exact ⟨r2, hr2, hs1.1.trans hs2.1, hs1.2.1.trans hs2.2.1, hs1.2.2.trans hs2.2.2⟩
 
 /-- a change that keeps every identity and key row (up to flags), and whose new key / certificate rows have
     a parent -/
@@ -667,41 +869,145 @@ theorem Linked.delIds {d : Db} (h : Linked d) (p : Row Nat → Bool)
   · rfl
   · exact absurd h1.symm (hp k hk i him hpi)
 
-/-- properties of (TPM contents, key-id counter) that survive generating a fresh key and deleting keys -/
-structure JOk (J : List KeyName → Nat → Prop) : Prop where
-  app : ∀ t n m, J t n → J (t ++ [⟨m, n⟩]) (n + 1)
-  filt : ∀ t n (p : KeyName → Bool), J t n → J (t.filter p) n
+/-- every key row has its private-key file, and the file holds the private key that belongs to the public
+    key in the row (`key_bits`) -/
+def Matched (fn : KeyName → FileName) (t : List (FileName × Nat)) (d : Db) : Prop :=
+  ∀ r ∈ d.keys.rows, fileGet t (fn r.name) = some r.data
+
+theorem Matched.empty (fn : KeyName → FileName) (t : List (FileName × Nat)) : Matched fn t Db.empty :=
+  fun _ h => by cases h
+
+theorem Matched.sub {fn : KeyName → FileName} {t : List (FileName × Nat)} {d d' : Db} (h : Matched fn t d)
+    (hs : NameData d.keys.rows d'.keys.rows) : Matched fn t d' := by
+  intro r' hr'
+  obtain ⟨r, hr, h1, h2⟩ := hs r' hr'
+  rw [← h1, ← h2]; exact h r hr
+
+theorem fileGet_write_of_some {t : List (FileName × Nat)} {f f' : FileName} {p q : Nat}
+    (hf : fileGet t f = none) (h : fileGet t f' = some q) : fileGet (writeFile t f p) f' = some q := by
+  rw [fileGet_write]
+  split
+  · rename_i e; rw [e, hf] at h; cases h
+  · exact h
+
+/-- a file that did not exist is written -/
+theorem Matched.write {fn : KeyName → FileName} {t : List (FileName × Nat)} {d : Db} {f : FileName} (p : Nat)
+    (h : Matched fn t d) (hf : fileGet t f = none) : Matched fn (writeFile t f p) d :=
+  fun r hr => fileGet_write_of_some hf (h r hr)
+
+/-! #### the key names in the database, and their file names -/
+
+/-- the key names stored in the database (as the connection sees it, and as committed) -/
+def KN (s : Sys) : List KeyName := (s.cur.keys.rows ++ s.com.keys.rows).map (·.name)
+
+/-- no two different key names in the database have the same private-key file name -/
+def FD (s : Sys) : Prop := ∀ a ∈ KN s, ∀ b ∈ KN s, s.cfg.fn a = s.cfg.fn b → a = b
+
+/-- no other key name in the database has `k`'s private-key file name -/
+def Alone (k : KeyName) (s : Sys) : Prop := ∀ a ∈ KN s, s.cfg.fn a = s.cfg.fn k → a = k
+
+theorem mem_KN {s : Sys} {a : KeyName} :
+    a ∈ KN s ↔ (∃ r ∈ s.cur.keys.rows, r.name = a) ∨ (∃ r ∈ s.com.keys.rows, r.name = a) := by
+  simp only [KN, List.mem_map, List.mem_append]
+  constructor
+  · rintro ⟨r, hr | hr, e⟩
+    · exact Or.inl ⟨r, hr, e⟩
+    · exact Or.inr ⟨r, hr, e⟩
+  · rintro (⟨r, hr, e⟩ | ⟨r, hr, e⟩)
+    · exact ⟨r, Or.inl hr, e⟩
+    · exact ⟨r, Or.inr hr, e⟩
+
+theorem FD.mono {s s' : Sys} (hc : s'.cfg = s.cfg) (hk : ∀ a ∈ KN s', a ∈ KN s) (h : FD s) : FD s' := by
+  intro a ha b hb e
+  rw [hc] at e
+  exact h a (hk a ha) b (hk b hb) e
+
+theorem Alone.mono {k : KeyName} {s s' : Sys} (hc : s'.cfg = s.cfg) (hk : ∀ a ∈ KN s', a ∈ KN s) (h : Alone k s) :
+    Alone k s' := by
+  intro a ha e
+  rw [hc] at e
+  exact h a (hk a ha) e
+
+theorem FD.alone {s : Sys} {k : KeyName} (h : FD s) (hk : k ∈ KN s) : Alone k s :=
+  fun a ha e => h a ha k hk e
+
+theorem FD.fi : FI FD := fun _ _ h => h
+theorem Alone.fi (k : KeyName) : FI (Alone k) := fun _ _ h => h
+
+/-- the key names after a write to the database that adds no key name -/
+theorem KN_cur_nd {s : Sys} {d : Db} (h : NameData s.cur.keys.rows d.keys.rows) :
+    ∀ a ∈ KN { s with cur := d }, a ∈ KN s := by
+  intro a ha
+  rw [mem_KN] at ha ⊢
+  rcases ha with ⟨r, hr, e⟩ | ⟨r, hr, e⟩
+  · obtain ⟨r0, hr0, e0, _⟩ := h r hr
+    exact Or.inl ⟨r0, hr0, e0.trans e⟩
+  · exact Or.inr ⟨r, hr, e⟩
+
+theorem KN_commit {s : Sys} : ∀ a ∈ KN { s with com := s.cur }, a ∈ KN s := by
+  intro a ha
+  rw [mem_KN] at ha ⊢
+  rcases ha with ha | ha
+  · exact Or.inl ha
+  · exact Or.inl ha
+
+theorem KN_reopen {s : Sys} : ∀ a ∈ KN { s with cur := s.com, cache := [] }, a ∈ KN s := by
+  intro a ha
+  rw [mem_KN] at ha ⊢
+  rcases ha with ha | ha
+  · exact Or.inr ha
+  · exact Or.inr ha
+
+/-- properties of (private-key directory, number of key pairs generated) that survive writing the next key
+    pair to a file and removing files -/
+structure JOk (J : List (FileName × Nat) → Nat → Prop) : Prop where
+  write : ∀ t n f, J t n → J (writeFile t f n) (n + 1)
+  filt : ∀ t n (p : FileName × Nat → Bool), J t n → J (t.filter p) n
 
 theorem JOk.trivial : JOk (fun _ _ => True) := ⟨fun _ _ _ _ => True.intro, fun _ _ _ _ => True.intro⟩
 
-/-- the invariant, with a slot `J` for an additional property of (TPM contents, key-id counter) -/
-structure SysInv (J : List KeyName → Nat → Prop) (s : Sys) : Prop where
+/-- the invariant, with a slot `J` for an additional property of (private-key directory, number of key pairs) -/
+structure SysInv (J : List (FileName × Nat) → Nat → Prop) (s : Sys) : Prop where
   cur : DbInv s.cur
   com : DbInv s.com
-  /-- a cached signer is the one `tpm.get_signer(key, locator)` would return, and its key file exists -/
-  cache : ∀ e ∈ s.cache, e.2.key = e.1.1 ∧ e.2.loc = e.1.2 ∧ e.1.1 ∈ s.tpm
-  /-- key ids in the TPM and in the key tables have been generated -/
-  kids : ∀ k ∈ s.tpm, k.kid < s.nextKid
-  keyKids : (∀ r ∈ s.cur.keys.rows, r.name.kid < s.nextKid) ∧ (∀ r ∈ s.com.keys.rows, r.name.kid < s.nextKid)
+  /-- a cached signer is the one `tpm.get_signer(key, locator)` would return now: the key's file still holds
+      the private key the signer loaded -/
+  cache : ∀ e ∈ s.cache, e.2.key = e.1.1 ∧ e.2.loc = e.1.2 ∧ fileGet s.tpm (s.cfg.fn e.1.1) = some e.2.priv
+  /-- the key pairs in the private-key directory have been generated -/
+  kids : ∀ e ∈ s.tpm, e.2 < s.nextKid
+  /-- no private key is stored in two files -/
+  privs : s.tpm.Pairwise fun a b => a.2 ≠ b.2
+  /-- every key row (seen by the connection, and committed) has its private-key file, holding the private key
+      of the row's public key -/
+  matched : Matched s.cfg.fn s.tpm s.cur ∧ Matched s.cfg.fn s.tpm s.com
+  /-- `TpmFile.generate_key` as repaired -/
+  guard : s.cfg.guard = true
+  /-- no two different key names in the database have the same private-key file name (the repaired `generate_key`
+      refuses a name whose file exists, so this holds for EVERY file-name function - also for one with collisions) -/
+  fd : FD s
   /-- no orphan rows, keys hang below the identity they are named after -/
   link : Linked s.cur ∧ Linked s.com
   extra : J s.tpm s.nextKid
 
-variable {J : List KeyName → Nat → Prop}
+variable {J : List (FileName × Nat) → Nat → Prop}
 
-theorem SysInv.init (h : J [] 0) : SysInv J Sys.init :=
+theorem SysInv.init (fn : KeyName → FileName) (h : J [] 0) : SysInv J (Sys.init fn) :=
   { cur := ⟨TabInv.empty _, TabInv.empty _, TabInv.empty _⟩
     com := ⟨TabInv.empty _, TabInv.empty _, TabInv.empty _⟩
     cache := fun _ h => by cases h
     kids := fun _ h => by cases h
-    keyKids := ⟨(fun _ h => by cases h), (fun _ h => by cases h)⟩
+    privs := List.Pairwise.nil
+    matched := ⟨Matched.empty _ _, Matched.empty _ _⟩
+    guard := rfl
+    fd := fun _ h => by cases h
     link := ⟨Linked.empty, Linked.empty⟩
     extra := h }
 
-theorem SysInv.fi : FI (SysInv J) := fun _ _ h => ⟨h.cur, h.com, h.cache, h.kids, h.keyKids, h.link, h.extra⟩
+theorem SysInv.fi : FI (SysInv J) :=
+  fun _ _ h => ⟨h.cur, h.com, h.cache, h.kids, h.privs, h.matched, h.guard, h.fd, h.link, h.extra⟩
 
-theorem SysInv.withJ {J' : List KeyName → Nat → Prop} {s : Sys} (h : SysInv J s) (h' : J' s.tpm s.nextKid) :
-    SysInv J' s := ⟨h.cur, h.com, h.cache, h.kids, h.keyKids, h.link, h'⟩
+theorem SysInv.withJ {J' : List (FileName × Nat) → Nat → Prop} {s : Sys} (h : SysInv J s) (h' : J' s.tpm s.nextKid) :
+    SysInv J' s := ⟨h.cur, h.com, h.cache, h.kids, h.privs, h.matched, h.guard, h.fd, h.link, h'⟩
 
 theorem updIds_eq : updSetDefault (ν := Nat) (trs .identities) = setDefaultCF false := by
   funext n t; exact upd_ids n t
@@ -710,48 +1016,40 @@ theorem updKeys_eq : updSetDefault (ν := KeyName) (trs .keys) = setDefaultCF tr
 theorem updCerts_eq : updSetDefault (ν := CertName) (trs .certificates) = setDefaultCF true := by
   funext n t; exact upd_certs n t
 
-/-- a database write that keeps the per-table invariants and does not add key rows -/
+/-- a database write that keeps the per-table invariants and neither adds key rows nor changes their payload -/
 theorem pres_modCur {f : Db → Db} (hf : ∀ d, DbInv d → DbInv (f d))
-    (hk : ∀ d, ∀ r ∈ (f d).keys.rows, r ∈ d.keys.rows) (hl : ∀ d, DbInv d → Linked d → Linked (f d)) :
+    (hk : ∀ d, NameData d.keys.rows (f d).keys.rows) (hl : ∀ d, DbInv d → Linked d → Linked (f d)) :
     Pres (SysInv J) (modCur f) :=
-  Pres.modS fun s h => ⟨hf _ h.cur, h.com, h.cache, h.kids, ⟨fun r hr => h.keyKids.1 r (hk _ r hr), h.keyKids.2⟩,
-    ⟨hl _ h.cur h.link.1, h.link.2⟩, h.extra⟩
+  Pres.modS fun s h => ⟨hf _ h.cur, h.com, h.cache, h.kids, h.privs, ⟨h.matched.1.sub (hk _), h.matched.2⟩, h.guard,
+    FD.mono (s := s) rfl (KN_cur_nd (hk _)) h.fd, ⟨hl _ h.cur h.link.1, h.link.2⟩, h.extra⟩
 
 theorem pres_tick : Pres (SysInv J) tick := Pres.tick SysInv.fi
 
 theorem pres_commit : Pres (SysInv J) commit :=
-  Pres.bind pres_tick fun _ => Pres.modS fun _ h => ⟨h.cur, h.cur, h.cache, h.kids, ⟨h.keyKids.1, h.keyKids.1⟩, ⟨h.link.1, h.link.1⟩, h.extra⟩
-
-theorem setDefaultCF_mem_names {ν : Type} [DecidableEq ν] {sc : Bool} {n : ν} {t : Table ν} {r : Row ν}
-    (h : r ∈ setDefaultCF sc n t) : ∃ r' ∈ t, r'.name = r.name := by
-  have : r.name ∈ (setDefaultCF sc n t).map (·.name) := List.mem_map_of_mem h
-  rw [setDefaultCF_names] at this
-  obtain ⟨r', hr', e⟩ := List.mem_map.mp this
-  exact ⟨r', hr', e⟩
+  Pres.bind pres_tick fun _ => Pres.modS fun s h =>
+    ⟨h.cur, h.cur, h.cache, h.kids, h.privs, ⟨h.matched.1, h.matched.1⟩, h.guard, FD.mono (s := s) rfl KN_commit h.fd,
+      ⟨h.link.1, h.link.1⟩, h.extra⟩
 
 theorem pres_execSetDefaultId (n : Nat) : Pres (SysInv J) (execSetDefaultId n) :=
   Pres.bind pres_tick fun _ => pres_modCur (fun d h => by
-    rw [updIds_eq]; exact ⟨h.ids.setDefault n, h.keys, h.certs⟩) (fun _ _ h => h) (fun d _ hl => by
+    rw [updIds_eq]; exact ⟨h.ids.setDefault n, h.keys, h.certs⟩) (fun _ => NameData.refl _) (fun d _ hl => by
     rw [updIds_eq]
     exact hl.transfer (setDefaultCF_bwd _ _ _) (ColsSub.refl _) (fun k hk => Or.inl ⟨k, hk, rfl, rfl, rfl⟩)
       (fun c hc => Or.inl ⟨c, hc, rfl, rfl, rfl⟩))
+
 theorem pres_execSetDefaultKey (k : KeyName) : Pres (SysInv J) (execSetDefaultKey k) :=
-  Pres.bind pres_tick fun _ => Pres.modS fun s h => by
-    refine ⟨?_, h.com, h.cache, h.kids, ⟨fun r hr => ?_, h.keyKids.2⟩, ⟨?_, h.link.2⟩, h.extra⟩
-    · show DbInv { s.cur with keys := _ }
-      rw [updKeys_eq]; exact ⟨h.cur.ids, h.cur.keys.setDefault k, h.cur.certs⟩
-    · simp only [Tab.apply, updKeys_eq] at hr
-      obtain ⟨r', hr', e⟩ := setDefaultCF_mem_names hr
-      rw [← e]; exact h.keyKids.1 r' hr'
-    · show Linked { s.cur with keys := _ }
-      rw [updKeys_eq]
-      refine h.link.1.transfer (ColsSub.refl _) (setDefaultCF_bwd _ _ _) (fun k' hk' => ?_)
-        (fun c hc => Or.inl ⟨c, hc, rfl, rfl, rfl⟩)
-      obtain ⟨k0, hk0, hs⟩ := setDefaultCF_fwd _ _ _ k' hk'
-      exact Or.inl ⟨k0, hk0, hs.1.symm, hs.2.1.symm, hs.2.2.symm⟩
+  Pres.bind pres_tick fun _ => pres_modCur (fun d h => by
+    rw [updKeys_eq]; exact ⟨h.ids, h.keys.setDefault k, h.certs⟩)
+    (fun d => by rw [updKeys_eq]; exact setDefaultCF_nameData _ _ _) (fun d _ hl => by
+    rw [updKeys_eq]
+    refine hl.transfer (ColsSub.refl _) (setDefaultCF_bwd _ _ _) (fun k' hk' => ?_)
+      (fun c hc => Or.inl ⟨c, hc, rfl, rfl, rfl⟩)
+    obtain ⟨k0, hk0, hs⟩ := setDefaultCF_fwd _ _ _ k' hk'
+    exact Or.inl ⟨k0, hk0, hs.1.symm, hs.2.1.symm, hs.2.2.symm⟩)
+
 theorem pres_execSetDefaultCert (c : CertName) : Pres (SysInv J) (execSetDefaultCert c) :=
   Pres.bind pres_tick fun _ => pres_modCur (fun d h => by
-    rw [updCerts_eq]; exact ⟨h.ids, h.keys, h.certs.setDefault c⟩) (fun _ _ h => h) (fun d _ hl => by
+    rw [updCerts_eq]; exact ⟨h.ids, h.keys, h.certs.setDefault c⟩) (fun _ => NameData.refl _) (fun d _ hl => by
     rw [updCerts_eq]
     refine hl.transfer (ColsSub.refl _) (ColsSub.refl _) (fun k hk => Or.inl ⟨k, hk, rfl, rfl, rfl⟩) (fun c' hc' => ?_)
     obtain ⟨c0, hc0, hs⟩ := setDefaultCF_fwd _ _ _ c' hc'
@@ -765,49 +1063,67 @@ theorem pres_execInsertId (n : Nat) : Pres (SysInv J) (execInsertId n) := by
     refine Triple.modS fun s h => ?_
     obtain ⟨h, rfl⟩ := h
     rw [ins_ids] at ht
-    refine ⟨⟨h.cur.ids.insert ht, h.cur.keys, h.cur.certs⟩, h.com, h.cache, h.kids, h.keyKids, ⟨?_, h.link.2⟩, h.extra⟩
+    refine ⟨⟨h.cur.ids.insert ht, h.cur.keys, h.cur.certs⟩, h.com, h.cache, h.kids, h.privs, h.matched, h.guard, h.fd,
+      ⟨?_, h.link.2⟩, h.extra⟩
     exact h.link.1.transfer (d' := { a.cur with ids := a.cur.ids.apply false fun _ => t }) (insertCF_bwd ht)
       (ColsSub.refl _) (fun k hk => Or.inl ⟨k, hk, rfl, rfl, rfl⟩) (fun c hc => Or.inl ⟨c, hc, rfl, rfl, rfl⟩)
-
-theorem insertCF_mem_names {ν : Type} [DecidableEq ν] {sc : Bool} {o : Nat} {n : ν} {t t' : Table ν} {r : Row ν}
-    (hi : insertCF sc o n t = some t') (h : r ∈ t') : r.name = n ∨ ∃ r' ∈ t, r'.name = r.name := by
-  have : r.name ∈ t'.map (·.name) := List.mem_map_of_mem h
-  rw [(insertCF_names hi).1, List.mem_append] at this
-  rcases this with h1 | h1
-  · obtain ⟨r', hr', e⟩ := List.mem_map.mp h1
-    exact Or.inr ⟨r', hr', e⟩
-  · simp at h1; exact Or.inl h1
 
 /-- the identity row `o` below which a key named `k` may be inserted -/
 def KeyParent (o : Nat) (k : KeyName) (s : Sys) : Prop := ∃ i ∈ s.cur.ids.rows, i.rid = o ∧ i.name = k.idn
 
-/-- inserting a key row needs its key id to have been generated, and its parent identity row -/
-theorem triple_execInsertKey (o : Nat) (k : KeyName) :
-    Triple (fun s => SysInv J s ∧ k.kid < s.nextKid ∧ KeyParent o k s) (execInsertKey o k)
+/-- inserting a key row needs the private key of its public key in the key's file, no other stored key name with
+    that file name, and its parent identity row -/
+theorem triple_execInsertKey (o : Nat) (k : KeyName) (b : Nat) :
+    Triple (fun s => SysInv J s ∧ (fileGet s.tpm (s.cfg.fn k) = some b ∧ Alone k s) ∧ KeyParent o k s) (execInsertKey o k b)
       (fun _ => SysInv J) (fun _ => SysInv J) := by
-  refine Triple.bind (Q' := fun _ s => SysInv J s ∧ k.kid < s.nextKid ∧ KeyParent o k s)
-    (Triple.conseq (Triple.tick (P := fun s => SysInv J s ∧ k.kid < s.nextKid ∧ KeyParent o k s)
+  refine Triple.bind (Q' := fun _ s => SysInv J s ∧ (fileGet s.tpm (s.cfg.fn k) = some b ∧ Alone k s) ∧ KeyParent o k s)
+    (Triple.conseq (Triple.tick (P := fun s => SysInv J s ∧ (fileGet s.tpm (s.cfg.fn k) = some b ∧ Alone k s) ∧ KeyParent o k s)
       fun s f h => ⟨SysInv.fi s f h.1, h.2⟩)
       (fun _ h => h) (fun _ _ h => h) (fun _ _ h => h.1)) fun _ => ?_
-  refine Triple.bind (Q' := fun a s => (SysInv J s ∧ k.kid < s.nextKid ∧ KeyParent o k s) ∧ a = s) Triple.getS fun a => ?_
+  refine Triple.bind (Q' := fun a s => (SysInv J s ∧ (fileGet s.tpm (s.cfg.fn k) = some b ∧ Alone k s) ∧ KeyParent o k s) ∧ a = s)
+    Triple.getS fun a => ?_
   split
   · exact Triple.raise fun _ h => h.1.1
   · rename_i t ht
     refine Triple.modS fun s h => ?_
-    obtain ⟨⟨h, hk, hpar⟩, rfl⟩ := h
+    obtain ⟨⟨h, ⟨hk, hal⟩, hpar⟩, rfl⟩ := h
     rw [ins_keys] at ht
-    refine ⟨⟨h.cur.ids, h.cur.keys.insert ht, h.cur.certs⟩, h.com, h.cache, h.kids, ⟨fun r hr => ?_, h.keyKids.2⟩,
-      ⟨?_, h.link.2⟩, h.extra⟩
-    · simp only [Tab.apply] at hr
-      rcases insertCF_mem_names ht hr with e | ⟨r', hr', e⟩
-      · rw [e]; exact hk
-      · rw [← e]; exact h.keyKids.1 r' hr'
-    · refine h.link.1.transfer (d' := { a.cur with keys := a.cur.keys.apply true fun _ => t }) (ColsSub.refl _)
-        (insertCF_bwd ht) (fun k' hk' => ?_) (fun c hc => Or.inl ⟨c, hc, rfl, rfl, rfl⟩)
-      rcases insertCF_fwd ht hk' with ⟨k0, hk0, hs⟩ | ⟨h1, h2⟩
-      · exact Or.inl ⟨k0, hk0, hs⟩
+    have hnames : ∀ x ∈ KN { a with cur := { a.cur with keys := a.cur.keys.apply true fun _ => setData k b t } },
+        x = k ∨ x ∈ KN a := by
+      intro x hx
+      rw [mem_KN] at hx
+      rcases hx with ⟨r, hr, e⟩ | ⟨r, hr, e⟩
+      · have hr : r ∈ setData k b t := hr
+        rcases setData_mem hr with ⟨e1, _⟩ | ⟨hm, hne⟩
+        · exact Or.inl (e.symm.trans e1)
+        · rcases insertCF_nameData ht hm with ⟨r0, hr0, e1, _⟩ | e1
+          · exact Or.inr (mem_KN.mpr (Or.inl ⟨r0, hr0, e1.trans e⟩))
+          · exact absurd e1 hne
+      · exact Or.inr (mem_KN.mpr (Or.inr ⟨r, hr, e⟩))
+    refine ⟨⟨h.cur.ids, (h.cur.keys.insert ht).setData k b, h.cur.certs⟩, h.com, h.cache, h.kids, h.privs,
+      ⟨fun r hr => ?_, h.matched.2⟩, h.guard, ?_, ⟨?_, h.link.2⟩, h.extra⟩
+    · have hr : r ∈ setData k b t := hr
+      rcases setData_mem hr with ⟨e1, e2⟩ | ⟨hm, hne⟩
+      · show fileGet a.tpm (a.cfg.fn r.name) = some r.data
+        rw [e1, e2]; exact hk
+      · rcases insertCF_nameData ht hm with ⟨r0, hr0, e1, e2⟩ | e
+        · show fileGet a.tpm (a.cfg.fn r.name) = some r.data
+          rw [← e1, ← e2]; exact h.matched.1 r0 hr0
+        · exact absurd e hne
+    · intro x hx y hy e
+      have e : a.cfg.fn x = a.cfg.fn y := e
+      rcases hnames x hx with rfl | hx' <;> rcases hnames y hy with rfl | hy'
+      · rfl
+      · exact (hal y hy' e.symm).symm
+      · exact hal x hx' e
+      · exact h.fd x hx' y hy' e
+    · refine h.link.1.transfer (d' := { a.cur with keys := a.cur.keys.apply true fun _ => setData k b t }) (ColsSub.refl _)
+        ((insertCF_bwd ht).trans (setData_bwd k b t)) (fun k' hk' => ?_) (fun c hc => Or.inl ⟨c, hc, rfl, rfl, rfl⟩)
+      obtain ⟨k1, hk1, hs1⟩ := setData_fwd k b t k' hk'
+      rcases insertCF_fwd ht hk1 with ⟨k0, hk0, hs⟩ | ⟨h1, h2⟩
+      · exact Or.inl ⟨k0, hk0, hs.1.trans hs1.1.symm, hs.2.1.trans hs1.2.1.symm, hs.2.2.trans hs1.2.2.symm⟩
       · obtain ⟨i, hi, hi1, hi2⟩ := hpar
-        exact Or.inr ⟨i, hi, hi1.trans h1.symm, by rw [hi2, h2]⟩
+        exact Or.inr ⟨i, hi, by rw [hi1, hs1.2.1, h1], by rw [hi2, hs1.2.2, h2]⟩
 
 theorem pres_execInsertCert (k : KeyName) (c : CertName) : Pres (SysInv J) (execInsertCert k c) := by
   refine Pres.bind pres_tick fun _ => Triple.bind (Q' := fun a s => SysInv J s ∧ a = s) Triple.getS fun a => ?_
@@ -820,36 +1136,46 @@ theorem pres_execInsertCert (k : KeyName) (c : CertName) : Pres (SysInv J) (exec
       obtain ⟨h, rfl⟩ := h
       rename_i kr hkr _
       rw [ins_certs] at ht
-      refine ⟨⟨h.cur.ids, h.cur.keys, h.cur.certs.insert ht⟩, h.com, h.cache, h.kids, h.keyKids, ⟨?_, h.link.2⟩, h.extra⟩
+      refine ⟨⟨h.cur.ids, h.cur.keys, h.cur.certs.insert ht⟩, h.com, h.cache, h.kids, h.privs, h.matched, h.guard, h.fd,
+        ⟨?_, h.link.2⟩, h.extra⟩
       refine h.link.1.transfer (d' := { a.cur with certs := a.cur.certs.apply true fun _ => t }) (ColsSub.refl _)
         (ColsSub.refl _) (fun k hk => Or.inl ⟨k, hk, rfl, rfl, rfl⟩) (fun c' hc' => ?_)
       rcases insertCF_fwd ht hc' with ⟨c0, hc0, hs⟩ | ⟨h1, _⟩
       · exact Or.inl ⟨c0, hc0, hs⟩
       · exact Or.inr ⟨kr, List.mem_of_find?_eq_some hkr, h1.symm⟩
 
-theorem pres_lookupId (n : Nat) : Pres (SysInv J) (lookupId n) :=
-  Pres.bind Pres.getS fun _ => Pres.ofOpt _ _
-
-theorem triple_lookupId (n : Nat) :
-    Triple (SysInv J) (lookupId n) (fun i s => SysInv J s ∧ i ∈ s.cur.ids.rows ∧ i.name = n) (fun _ => SysInv J) := by
+/-- lookups read only: any predicate of the state is kept, and the row found is in the table -/
+theorem frame_lookupId {P : Sys → Prop} (n : Nat) :
+    Triple P (lookupId n) (fun i s => P s ∧ i ∈ s.cur.ids.rows ∧ i.name = n) (fun _ => P) := by
   unfold lookupId
-  refine Triple.bind (Q' := fun a s => SysInv J s ∧ a = s) Triple.getS fun a => ?_
+  refine Triple.bind (Q' := fun a s => P s ∧ a = s) Triple.getS fun a => ?_
   refine Triple.ofOpt (fun i s ho h => ?_) (fun _ _ h => h.1)
   obtain ⟨h, rfl⟩ := h
   have := List.find?_some ho
   exact ⟨h, List.mem_of_find?_eq_some ho, by simpa using this⟩
 
-theorem triple_lookupKey (k : KeyName) :
-    Triple (SysInv J) (lookupKey k) (fun kr s => SysInv J s ∧ kr ∈ s.cur.keys.rows ∧ kr.name = k)
-      (fun _ => SysInv J) := by
+theorem frame_lookupKey {P : Sys → Prop} (k : KeyName) :
+    Triple P (lookupKey k) (fun kr s => P s ∧ kr ∈ s.cur.keys.rows ∧ kr.name = k) (fun _ => P) := by
   unfold lookupKey
-  refine Triple.bind (pres_lookupId _) fun i => ?_
-  refine Triple.bind (Q' := fun a s => SysInv J s ∧ a = s) Triple.getS fun a => ?_
+  refine Triple.bind (Q' := fun _ => P) (Triple.conseq (frame_lookupId (P := P) _) (fun _ h => h) (fun _ _ h => h.1)
+    (fun _ _ h => h)) fun i => ?_
+  refine Triple.bind (Q' := fun a s => P s ∧ a = s) Triple.getS fun a => ?_
   refine Triple.ofOpt (fun kr s ho h => ?_) (fun _ _ h => h.1)
   obtain ⟨h, rfl⟩ := h
   have := List.find?_some ho
   simp only [Bool.and_eq_true, decide_eq_true_eq] at this
   exact ⟨h, List.mem_of_find?_eq_some ho, this.1⟩
+
+theorem pres_lookupId (n : Nat) : Pres (SysInv J) (lookupId n) :=
+  Pres.bind Pres.getS fun _ => Pres.ofOpt _ _
+
+theorem triple_lookupId (n : Nat) :
+    Triple (SysInv J) (lookupId n) (fun i s => SysInv J s ∧ i ∈ s.cur.ids.rows ∧ i.name = n) (fun _ => SysInv J) :=
+  frame_lookupId n
+
+theorem triple_lookupKey (k : KeyName) :
+    Triple (SysInv J) (lookupKey k) (fun kr s => SysInv J s ∧ kr ∈ s.cur.keys.rows ∧ kr.name = k)
+      (fun _ => SysInv J) := frame_lookupKey k
 
 theorem pres_lookupKey (k : KeyName) : Pres (SysInv J) (lookupKey k) :=
   Pres.bind (pres_lookupId _) fun _ => Pres.bind Pres.getS fun _ => Pres.ofOpt _ _
@@ -864,7 +1190,29 @@ theorem pres_newIdentity (n : Nat) : Pres (SysInv J) (newIdentity n) := by
     Pres.bind (Pres.whenM (pres_setDefaultIdentity n)) fun _ =>
     Pres.bind (pres_lookupId n) fun _ => Pres.pure _
 
-theorem pres_newKey (hJ : JOk J) (n : Nat) (bad : Bool) : Pres (SysInv J) (newKey n bad) := by
+/-- the state after `save_key` wrote the next key pair to a file that did not exist -/
+theorem SysInv.written (hJ : JOk J) {s : Sys} (h : SysInv J s) {f : FileName} (hf : fileGet s.tpm f = none) :
+    SysInv J { s with nextKid := s.nextKid + 1, tpm := writeFile s.tpm f s.nextKid } := by
+  refine ⟨h.cur, h.com, fun e he => ?_, fun e he => ?_, ?_, ⟨h.matched.1.write _ hf, h.matched.2.write _ hf⟩, h.guard,
+    h.fd, h.link, hJ.write _ _ _ h.extra⟩
+  · obtain ⟨h1, h2, h3⟩ := h.cache e he
+    exact ⟨h1, h2, fileGet_write_of_some hf h3⟩
+  · rcases mem_writeFile he with he | rfl
+    · have := h.kids e he
+      show e.2 < s.nextKid + 1
+      omega
+    · show s.nextKid < s.nextKid + 1
+      omega
+  · show (removeFile s.tpm f ++ [(f, s.nextKid)]).Pairwise _
+    rw [List.pairwise_append]
+    refine ⟨List.Pairwise.filter _ h.privs, List.pairwise_singleton _ _, fun a ha b hb => ?_⟩
+    simp only [List.mem_singleton] at hb
+    subst hb
+    have := h.kids a (List.mem_filter.mp ha).1
+    show a.2 ≠ s.nextKid
+    omega
+
+theorem pres_newKey (hJ : JOk J) (n : Nat) (bad : Bool) (spec : KeyIdSpec) : Pres (SysInv J) (newKey n bad spec) := by
   unfold newKey
   refine Triple.bind (triple_lookupId n) fun i => ?_
   -- the parent row stays where it is until the key row is inserted
@@ -878,28 +1226,34 @@ theorem pres_newKey (hJ : JOk J) (n : Nat) (bad : Bool) : Pres (SysInv J) (newKe
     · exact Triple.pure fun _ h => h
   refine Triple.bind (Q' := fun _ => A) tickA fun _ => Triple.bind (Q' := fun _ => A) (raiseIfA _ _) fun _ =>
     Triple.bind (Q' := fun a s => A s ∧ a = s) Triple.getS fun a => ?_
-  let B : Sys → Prop := fun s => A s ∧ a.nextKid < s.nextKid
+  refine Triple.bind (Q' := fun _ s => A s ∧ a = s) (Triple.ofOpt (fun _ _ _ h => h) (fun _ _ h => h.1.1)) fun kid => ?_
+  -- the repaired `generate_key` goes on only when the key name has no file
+  refine Triple.bind (Q' := fun _ s => (A s ∧ a = s) ∧ fileGet a.tpm (a.cfg.fn ⟨n, kid⟩) = none) ?_ fun _ => ?_
+  · unfold raiseIf; split
+    · exact Triple.raise fun _ h => h.1.1
+    · rename_i hc
+      refine Triple.pure fun s h => ⟨h, ?_⟩
+      obtain ⟨⟨hi, _⟩, rfl⟩ := h
+      rw [hi.guard, Bool.true_and] at hc
+      cases hx : fileGet a.tpm (a.cfg.fn ⟨n, kid⟩) with
+      | none => rfl
+      | some q => exact absurd (by simp [fileHas, hx]) hc
+  let B : Sys → Prop := fun s => A s ∧ s.cfg = a.cfg ∧ fileGet s.tpm (a.cfg.fn ⟨n, kid⟩) = some a.nextKid ∧
+    Alone ⟨n, kid⟩ s
   have fiB : FI B := fun s f h => ⟨fiA s f h.1, h.2⟩
   refine Triple.bind (Q' := fun _ => B) (Triple.modS fun s h => ?_) fun _ => ?_
-  · obtain ⟨⟨h, hi⟩, rfl⟩ := h
-    refine ⟨⟨⟨h.cur, h.com, fun e he => ?_, fun k hk => ?_, ⟨fun r hr => ?_, fun r hr => ?_⟩, h.link, hJ.app _ _ _ h.extra⟩, hi⟩, ?_⟩
-    · obtain ⟨h1, h2, h3⟩ := h.cache e he
-      exact ⟨h1, h2, List.mem_append_left _ h3⟩
-    · simp only [List.mem_append, List.mem_singleton] at hk
-      rcases hk with hk | rfl
-      · have := h.kids k hk
-        show k.kid < a.nextKid + 1
-        omega
-      · show a.nextKid < a.nextKid + 1
-        omega
-    · have := h.keyKids.1 r hr
-      show r.name.kid < a.nextKid + 1
-      omega
-    · have := h.keyKids.2 r hr
-      show r.name.kid < a.nextKid + 1
-      omega
-    · show a.nextKid < a.nextKid + 1
-      omega
+  · obtain ⟨⟨⟨h, hi⟩, rfl⟩, hf⟩ := h
+    refine ⟨⟨h.written hJ hf, hi⟩, rfl, by show fileGet (writeFile _ _ _) _ = _; rw [fileGet_write]; simp, ?_⟩
+    -- every stored key name has its file: none of them has the file name that was free a moment ago
+    intro x hx e
+    have e : a.cfg.fn x = a.cfg.fn ⟨n, kid⟩ := e
+    have hx : x ∈ KN a := hx
+    rw [mem_KN] at hx
+    rcases hx with ⟨r, hr, rfl⟩ | ⟨r, hr, rfl⟩
+    · have := h.matched.1 r hr
+      rw [e, hf] at this; cases this
+    · have := h.matched.2 r hr
+      rw [e, hf] at this; cases this
   · refine Triple.bind (Q' := fun _ => B)
       (Triple.conseq (Triple.tick fiB) (fun _ h => h) (fun _ _ h => h) (fun _ _ h => h.1.1)) fun _ => ?_
     refine Triple.bind (Q' := fun _ => B) (fun s h => h) fun _ => ?_
@@ -908,8 +1262,8 @@ theorem pres_newKey (hJ : JOk J) (n : Nat) (bad : Bool) : Pres (SysInv J) (newKe
       · exact Triple.raise fun _ h => h.1.1
       · exact Triple.pure fun _ h => h
     · refine Triple.bind (Q' := fun _ s => SysInv J s)
-        (Triple.conseq (triple_execInsertKey i.rid ⟨n, a.nextKid⟩)
-          (fun s h => ⟨h.1.1, h.2, i, h.1.2.1, rfl, h.1.2.2⟩) (fun _ _ h => h) (fun _ _ h => h)) fun _ => ?_
+        (Triple.conseq (triple_execInsertKey i.rid ⟨n, kid⟩ a.nextKid)
+          (fun s h => ⟨h.1.1, ⟨by rw [h.2.1]; exact h.2.2.1, h.2.2.2⟩, i, h.1.2.1, rfl, h.1.2.2⟩) (fun _ _ h => h) (fun _ _ h => h)) fun _ => ?_
       exact Pres.bind (pres_execInsertCert _ _) fun _ =>
         Pres.bind pres_commit fun _ => Pres.bind Pres.getS fun _ =>
         Pres.bind (Pres.whenM (Pres.bind (pres_execSetDefaultKey _) fun _ => pres_commit)) fun _ =>
@@ -918,7 +1272,7 @@ theorem pres_newKey (hJ : JOk J) (n : Nat) (bad : Bool) : Pres (SysInv J) (newKe
 theorem pres_touchIdentity (hJ : JOk J) (n : Nat) : Pres (SysInv J) (touchIdentity n) := by
   unfold touchIdentity
   refine Pres.bind Pres.getS fun _ =>
-    Pres.bind (Pres.whenM (Pres.bind (pres_execInsertId n) fun _ => Pres.bind pres_commit fun _ => pres_newKey hJ n false)) fun _ =>
+    Pres.bind (Pres.whenM (Pres.bind (pres_execInsertId n) fun _ => Pres.bind pres_commit fun _ => pres_newKey hJ n false .random)) fun _ =>
     Pres.bind Pres.getS fun _ => Pres.bind (Pres.whenM (pres_setDefaultIdentity n)) fun _ =>
     Pres.bind (pres_lookupId n) fun _ => Pres.pure _
 
@@ -932,48 +1286,88 @@ theorem pres_setDefaultCert (v : KeyName) (c : CertName) : Pres (SysInv J) (setD
   Pres.bind (pres_lookupKey v) fun _ => Pres.bind (pres_execSetDefaultCert c) fun _ => pres_commit
 
 theorem pres_clearCache : Pres (SysInv J) clearCache :=
-  Pres.modS fun _ h => ⟨h.cur, h.com, (fun _ he => by cases he), h.kids, h.keyKids, h.link, h.extra⟩
+  Pres.modS fun _ h => ⟨h.cur, h.com, (fun _ he => by cases he), h.kids, h.privs, h.matched, h.guard, h.fd, h.link, h.extra⟩
 
 theorem pres_delCert (c : CertName) : Pres (SysInv J) (delCert c) :=
   Pres.bind pres_tick fun _ =>
-    Pres.bind (pres_modCur (fun _ h => ⟨h.ids, h.keys, h.certs.delete _⟩) (fun _ _ h => h)
+    Pres.bind (pres_modCur (fun _ h => ⟨h.ids, h.keys, h.certs.delete _⟩) (fun _ => NameData.refl _)
       (fun _ _ hl => hl.delCerts _)) fun _ =>
     Pres.bind pres_commit fun _ => pres_clearCache
 
-theorem pres_tpmDelete (hJ : JOk J) (k : KeyName) :
-    Pres (SysInv J) (modS (fun s => { s with tpm := s.tpm.filter fun x => x ≠ k }) >>= fun _ => clearCache) := by
-  intro s h
-  simp only [run_bind, run_modS, clearCache]
-  exact ⟨h.cur, h.com, (fun _ he => by cases he), fun x hx => h.kids x (List.mem_filter.mp hx).1, h.keyKids,
-    h.link, hJ.filt _ _ _ h.extra⟩
+/-- no key row is named `k` -/
+def NoRow (k : KeyName) (d : Db) : Prop := ∀ r ∈ d.keys.rows, r.name ≠ k
 
+/-- `tpm.delete_key(k)` and the emptying of the signer cache, once no key row named `k` is left and no other
+    key name in the database shares `k`'s file -/
+theorem SysInv.fileRemoved (hJ : JOk J) {s : Sys} {k : KeyName} (h : SysInv J s) (ha : Alone k s)
+    (h1 : NoRow k s.cur) (h2 : NoRow k s.com) :
+    SysInv J { s with tpm := removeFile s.tpm (s.cfg.fn k), cache := [] } := by
+  have key : ∀ d : Db, (∀ r ∈ d.keys.rows, r.name ∈ KN s) → NoRow k d → Matched s.cfg.fn s.tpm d →
+      Matched s.cfg.fn (removeFile s.tpm (s.cfg.fn k)) d := by
+    intro d hsub hno hm r hr
+    rw [fileGet_remove_ne]
+    · exact hm r hr
+    · intro e
+      exact hno r hr (ha _ (hsub r hr) e)
+  refine ⟨h.cur, h.com, (fun _ he => by cases he), fun x hx => h.kids x (List.mem_filter.mp hx).1,
+    List.Pairwise.filter _ h.privs, ⟨key _ (fun r hr => mem_KN.mpr (Or.inl ⟨r, hr, rfl⟩)) h1 h.matched.1,
+      key _ (fun r hr => mem_KN.mpr (Or.inr ⟨r, hr, rfl⟩)) h2 h.matched.2⟩, h.guard, h.fd, h.link, hJ.filt _ _ _ h.extra⟩
+
+/-- `del_key` keeps the invariant: the file it removes is nobody else's -/
 theorem pres_delKey (hJ : JOk J) (k : KeyName) : Pres (SysInv J) (delKey k) := by
   unfold delKey
   refine Triple.bind (triple_lookupKey k) fun kr => ?_
-  let A : Sys → Prop := fun s => SysInv J s ∧ kr ∈ s.cur.keys.rows ∧ kr.name = k
+  let A : Sys → Prop := fun s => SysInv J s ∧ Alone k s ∧ kr ∈ s.cur.keys.rows ∧ kr.name = k
   have fiA : FI A := fun s f h => ⟨SysInv.fi s f h.1, h.2⟩
+  refine Triple.conseq (P := A) ?_ (fun s h => ⟨h.1, h.1.fd.alone (mem_KN.mpr (Or.inl ⟨kr, h.2.1, h.2.2⟩)), h.2⟩)
+    (fun _ _ h => h) (fun _ _ h => h)
   refine Triple.bind (Q' := fun _ => A)
     (Triple.conseq (Triple.tick fiA) (fun _ h => h) (fun _ _ h => h) (fun _ _ h => h.1)) fun _ => ?_
   -- after the certificates below the key row are gone, the key row can go
   let B : Sys → Prop := fun s => A s ∧ ∀ c ∈ s.cur.certs.rows, c.owner ≠ kr.rid
   have fiB : FI B := fun s f h => ⟨fiA s f h.1, h.2⟩
   refine Triple.bind (Q' := fun _ => B) (Triple.modS fun s h => ?_) fun _ => ?_
-  · obtain ⟨h, hk⟩ := h
-    refine ⟨⟨⟨⟨h.cur.ids, h.cur.keys, h.cur.certs.delete _⟩, h.com, h.cache, h.kids, h.keyKids,
-      ⟨h.link.1.delCerts _, h.link.2⟩, h.extra⟩, hk⟩, fun c hc => ?_⟩
+  · obtain ⟨h, hal, hk⟩ := h
+    refine ⟨⟨⟨⟨h.cur.ids, h.cur.keys, h.cur.certs.delete _⟩, h.com, h.cache, h.kids, h.privs, h.matched, h.guard, h.fd,
+      ⟨h.link.1.delCerts _, h.link.2⟩, h.extra⟩, hal, hk⟩, fun c hc => ?_⟩
     have := (List.mem_filter.mp hc).2
     simpa using this
   refine Triple.bind (Q' := fun _ => B)
     (Triple.conseq (Triple.tick fiB) (fun _ h => h) (fun _ _ h => h) (fun _ _ h => h.1.1)) fun _ => ?_
-  refine Triple.bind (Q' := fun _ => SysInv J) (Triple.modS fun s h => ?_) fun _ => ?_
-  · obtain ⟨⟨h, hkm, hkn⟩, hc⟩ := h
-    refine ⟨⟨h.cur.ids, h.cur.keys.delete _, h.cur.certs⟩, h.com, h.cache, h.kids,
-      ⟨fun r hr => h.keyKids.1 r (List.mem_filter.mp hr).1, h.keyKids.2⟩, ⟨?_, h.link.2⟩, h.extra⟩
-    refine h.link.1.delKeys _ fun c hcm kr' hkr' hp => ?_
-    have hn : kr'.name = k := by simpa using hp
-    have : kr' = kr := eq_of_name_eq h.cur.keys.names hkr' hkm (hn.trans hkn.symm)
-    rw [this]; exact hc c hcm
-  exact Pres.bind pres_commit fun _ => Pres.bind pres_tick fun _ => pres_tpmDelete hJ k
+  -- the key row is deleted
+  let C : Sys → Prop := fun s => SysInv J s ∧ Alone k s ∧ NoRow k s.cur
+  have fiC : FI C := fun s f h => ⟨SysInv.fi s f h.1, h.2⟩
+  refine Triple.bind (Q' := fun _ => C) (Triple.modS fun s h => ?_) fun _ => ?_
+  · obtain ⟨⟨h, hal, hkm, hkn⟩, hc⟩ := h
+    have hsub : ∀ a ∈ KN { s with cur := { s.cur with keys := s.cur.keys.delete true fun r => r.name = k } }, a ∈ KN s :=
+      KN_cur_nd (NameData.filter _ _)
+    refine ⟨⟨⟨h.cur.ids, h.cur.keys.delete _, h.cur.certs⟩, h.com, h.cache, h.kids, h.privs,
+      ⟨h.matched.1.sub (NameData.filter _ _), h.matched.2⟩, h.guard, FD.mono (s := s) rfl hsub h.fd, ⟨?_, h.link.2⟩, h.extra⟩,
+      Alone.mono (s := s) rfl hsub hal, fun r hr => ?_⟩
+    · refine h.link.1.delKeys _ fun c hcm kr' hkr' hp => ?_
+      have hn : kr'.name = k := by simpa using hp
+      have : kr' = kr := eq_of_name_eq h.cur.keys.names hkr' hkm (hn.trans hkn.symm)
+      rw [this]; exact hc c hcm
+    · have := (List.mem_filter.mp hr).2
+      simpa using this
+  -- committed: no key row named `k` anywhere
+  let D : Sys → Prop := fun s => SysInv J s ∧ Alone k s ∧ NoRow k s.cur ∧ NoRow k s.com
+  have fiD : FI D := fun s f h => ⟨SysInv.fi s f h.1, h.2⟩
+  refine Triple.bind (Q' := fun _ => D) ?_ fun _ => ?_
+  · unfold commit
+    refine Triple.bind (Q' := fun _ => C)
+      (Triple.conseq (Triple.tick fiC) (fun _ h => h) (fun _ _ h => h) (fun _ _ h => h.1)) fun _ => ?_
+    refine Triple.modS fun s h => ?_
+    obtain ⟨h, hal, hno⟩ := h
+    exact ⟨⟨h.cur, h.cur, h.cache, h.kids, h.privs, ⟨h.matched.1, h.matched.1⟩, h.guard, FD.mono (s := s) rfl KN_commit h.fd,
+      ⟨h.link.1, h.link.1⟩, h.extra⟩, Alone.mono (s := s) rfl KN_commit hal, hno, hno⟩
+  refine Triple.bind (Q' := fun _ => D)
+    (Triple.conseq (Triple.tick fiD) (fun _ h => h) (fun _ _ h => h) (fun _ _ h => h.1)) fun _ => ?_
+  -- the private-key file is removed, the cache emptied
+  intro s h
+  obtain ⟨h, hal, h1, h2⟩ := h
+  simp only [run_bind, run_modS, clearCache]
+  exact h.fileRemoved hJ hal h1 h2
 
 theorem pres_delKeys (hJ : JOk J) (ks : List KeyName) : Pres (SysInv J) (delKeys ks) := by
   induction ks with
@@ -983,7 +1377,7 @@ theorem pres_delKeys (hJ : JOk J) (ks : List KeyName) : Pres (SysInv J) (delKeys
 /-! ### Part 4: what the operations achieve -/
 
 /-- the parts of the state `get_signer` reads -/
-def Frozen (s0 s : Sys) : Prop := s.cur = s0.cur ∧ s.tpm = s0.tpm ∧ s.cache = s0.cache
+def Frozen (s0 s : Sys) : Prop := s.cur = s0.cur ∧ s.tpm = s0.tpm ∧ s.cache = s0.cache ∧ s.cfg = s0.cfg
 
 theorem cacheGet_some {c : List ((KeyName × Loc) × Signer)} {k : KeyName × Loc} {sg : Signer}
     (h : cacheGet c k = some sg) : ((k, sg) : (KeyName × Loc) × Signer) ∈ c := by
@@ -1000,10 +1394,12 @@ theorem cacheGet_some {c : List ((KeyName × Loc) × Signer)} {k : KeyName × Lo
     subst h; subst h2
     exact h1
 
-/-- `get_signer` returns the signer for the resolved key and key locator; the key's private key exists -/
+/-- `get_signer` returns the signer for the resolved key and key locator, holding the private key that is in the
+    key's file -/
 theorem getSigner_spec (sel : Sel) (loc : Option Nat) (s0 : Sys) :
     Triple (fun s => SysInv J s ∧ Frozen s0 s) (getSigner sel loc)
-      (fun sg _ => ∃ k c, resolve s0.cur sel = some (k, c) ∧ sg = ⟨k, locOf loc c⟩ ∧ k ∈ s0.tpm)
+      (fun sg _ => ∃ k c, resolve s0.cur sel = some (k, c) ∧ sg.key = k ∧ sg.loc = locOf loc c ∧
+        fileGet s0.tpm (s0.cfg.fn k) = some sg.priv)
       (fun _ _ => True) := by
   unfold getSigner
   refine Triple.bind (Q' := fun a s => SysInv J s ∧ Frozen s0 s ∧ Frozen s0 a) (fun s h => ⟨h.1, h.2, h.2⟩) fun a => ?_
@@ -1016,45 +1412,44 @@ theorem getSigner_spec (sel : Sel) (loc : Option Nat) (s0 : Sys) :
     refine Triple.pure fun s h => ?_
     obtain ⟨⟨hi, hs, ha⟩, hr⟩ := h
     have hmem := cacheGet_some hc
-    rw [ha.2.2, ← hs.2.2] at hmem
+    rw [ha.2.2.1, ← hs.2.2.1] at hmem
     obtain ⟨h1, h2, h3⟩ := hi.cache _ hmem
     simp only at h1 h2 h3
-    refine ⟨k, c, by rw [← ha.1]; exact hr, ?_, by rw [← hs.2.1]; exact h3⟩
-    rcases sg with ⟨sk, sl⟩
-    simp only at h1 h2
-    rw [h1, h2]
+    refine ⟨k, c, by rw [← ha.1]; exact hr, h1, h2, ?_⟩
+    rw [← hs.2.1, ← hs.2.2.2]; exact h3
   · have fiA : FI (fun s => (SysInv J s ∧ Frozen s0 s ∧ Frozen s0 a) ∧ resolve a.cur sel = some (k, c)) :=
       fun s f h => ⟨⟨SysInv.fi s f h.1.1, h.1.2.1, h.1.2.2⟩, h.2⟩
     refine Triple.bind (Q' := fun _ s => (SysInv J s ∧ Frozen s0 s ∧ Frozen s0 a) ∧ resolve a.cur sel = some (k, c))
       (Triple.conseq (Triple.tick fiA) (fun _ h => h) (fun _ _ h => h) (fun _ _ _ => trivial)) fun _ => ?_
     split
-    · rename_i hk
-      refine Triple.bind (Q' := fun _ _ => resolve s0.cur sel = some (k, c) ∧ k ∈ s0.tpm)
-        (Triple.modS fun s h => ⟨by rw [← h.1.2.2.1]; exact h.2, by rw [← h.1.2.2.2.1]; exact hk⟩) fun _ => ?_
-      exact Triple.pure fun s h => ⟨k, c, h.1, rfl, h.2⟩
+    · rename_i p hk
+      refine Triple.bind (Q' := fun _ _ => resolve s0.cur sel = some (k, c) ∧ fileGet s0.tpm (s0.cfg.fn k) = some p)
+        (Triple.modS fun s h => ⟨by rw [← h.1.2.2.1]; exact h.2, by rw [← h.1.2.2.2.1, ← h.1.2.2.2.2.2]; exact hk⟩) fun _ => ?_
+      exact Triple.pure fun s h => ⟨k, c, h.1, rfl, rfl, h.2⟩
     · exact Triple.raise fun _ _ => trivial
 
 theorem Triple.tickT {P : Sys → Prop} (h : FI P) : Triple P Keychain.tick (fun _ => P) (fun _ _ => True) :=
   Triple.conseq (Triple.tick h) (fun _ h => h) (fun _ _ h => h) (fun _ _ _ => trivial)
 
-/-- database, TPM contents and key-id counter are as given -/
-def AtDb (d : Db) (t : List KeyName) (n : Nat) (s : Sys) : Prop := s.cur = d ∧ s.tpm = t ∧ s.nextKid = n
+/-- database, private-key directory, number of key pairs and configuration are as given -/
+def AtDb (d : Db) (t : List (FileName × Nat)) (n : Nat) (c : Cfg) (s : Sys) : Prop :=
+  s.cur = d ∧ s.tpm = t ∧ s.nextKid = n ∧ s.cfg = c
 
-theorem AtDb.fi (d : Db) (t : List KeyName) (n : Nat) : FI (AtDb d t n) := fun _ _ h => h
+theorem AtDb.fi (d : Db) (t : List (FileName × Nat)) (n : Nat) (c : Cfg) : FI (AtDb d t n c) := fun _ _ h => h
 
-theorem lookupId_spec (d : Db) (t : List KeyName) (n : Nat) (i : Nat) :
-    Triple (AtDb d t n) (lookupId i) (fun ir s => AtDb d t n s ∧ idRow? d i = some ir) (fun _ _ => True) := by
+theorem lookupId_spec (d : Db) (t : List (FileName × Nat)) (n : Nat) (c : Cfg) (i : Nat) :
+    Triple (AtDb d t n c) (lookupId i) (fun ir s => AtDb d t n c s ∧ idRow? d i = some ir) (fun _ _ => True) := by
   unfold lookupId
-  refine Triple.bind (Q' := fun a s => AtDb d t n s ∧ a = s) Triple.getS fun a => ?_
+  refine Triple.bind (Q' := fun a s => AtDb d t n c s ∧ a = s) Triple.getS fun a => ?_
   exact Triple.ofOpt (fun ir s ho h => ⟨h.1, by rw [← h.1.1, ← h.2]; exact ho⟩) (fun _ _ _ => trivial)
 
-theorem lookupKey_spec (d : Db) (t : List KeyName) (n : Nat) (k : KeyName) :
-    Triple (AtDb d t n) (lookupKey k)
-      (fun kr s => AtDb d t n s ∧ ∃ ir, idRow? d k.idn = some ir ∧ keyRow? d ir.rid k = some kr)
+theorem lookupKey_spec (d : Db) (t : List (FileName × Nat)) (n : Nat) (c : Cfg) (k : KeyName) :
+    Triple (AtDb d t n c) (lookupKey k)
+      (fun kr s => AtDb d t n c s ∧ ∃ ir, idRow? d k.idn = some ir ∧ keyRow? d ir.rid k = some kr)
       (fun _ _ => True) := by
   unfold lookupKey
-  refine Triple.bind (lookupId_spec d t n k.idn) fun ir => ?_
-  refine Triple.bind (Q' := fun a s => (AtDb d t n s ∧ idRow? d k.idn = some ir) ∧ a = s) Triple.getS fun a => ?_
+  refine Triple.bind (lookupId_spec d t n c k.idn) fun ir => ?_
+  refine Triple.bind (Q' := fun a s => (AtDb d t n c s ∧ idRow? d k.idn = some ir) ∧ a = s) Triple.getS fun a => ?_
   exact Triple.ofOpt (fun kr s ho h => ⟨h.1.1, ir, h.1.2, by rw [← h.1.1.1, ← h.2]; exact ho⟩) (fun _ _ _ => trivial)
 
 /-- what a successful `del_key k` did, relative to the state `s0` it started from -/
@@ -1063,43 +1458,44 @@ structure DelKeyPost (k : KeyName) (s0 s' : Sys) : Prop where
     s'.cur.certs.rows = s0.cur.certs.rows.filter (fun c => !(c.owner == kr.rid))
   keys : s'.cur.keys.rows = s0.cur.keys.rows.filter (fun r => !decide (r.name = k))
   ids : s'.cur.ids = s0.cur.ids
-  tpm : s'.tpm = s0.tpm.filter (fun x => x ≠ k)
+  tpm : s'.tpm = removeFile s0.tpm (s0.cfg.fn k)
   kid : s'.nextKid = s0.nextKid
+  cfg : s'.cfg = s0.cfg
   committed : s'.com = s'.cur
   cache : s'.cache = []
 
 theorem delKey_spec (k : KeyName) (s0 : Sys) :
-    Triple (AtDb s0.cur s0.tpm s0.nextKid) (delKey k) (fun _ s' => DelKeyPost k s0 s') (fun _ _ => True) := by
+    Triple (AtDb s0.cur s0.tpm s0.nextKid s0.cfg) (delKey k) (fun _ s' => DelKeyPost k s0 s') (fun _ _ => True) := by
   unfold delKey
-  refine Triple.bind (lookupKey_spec _ _ _ k) fun kr => ?_
+  refine Triple.bind (lookupKey_spec _ _ _ _ k) fun kr => ?_
   -- the facts about the row found do not depend on the state
-  refine Triple.conseq (P := fun s => AtDb s0.cur s0.tpm s0.nextKid s ∧
+  refine Triple.conseq (P := fun s => AtDb s0.cur s0.tpm s0.nextKid s0.cfg s ∧
       ∃ ir, idRow? s0.cur k.idn = some ir ∧ keyRow? s0.cur ir.rid k = some kr) ?_ (fun _ h => h) (fun _ _ h => h) (fun _ _ h => h)
   intro s hs
   obtain ⟨hs, ir, hir, hkr⟩ := hs
   revert s hs
-  show Triple (AtDb s0.cur s0.tpm s0.nextKid) _ _ _
+  show Triple (AtDb s0.cur s0.tpm s0.nextKid s0.cfg) _ _ _
   let d1 : Db := { s0.cur with certs := s0.cur.certs.delete true fun r => r.owner == kr.rid }
   let d2 : Db := { d1 with keys := d1.keys.delete true fun r => decide (r.name = k) }
-  refine Triple.bind (Triple.tickT (AtDb.fi _ _ _)) fun _ => ?_
-  refine Triple.bind (Q' := fun _ => AtDb d1 s0.tpm s0.nextKid)
+  refine Triple.bind (Triple.tickT (AtDb.fi _ _ _ _)) fun _ => ?_
+  refine Triple.bind (Q' := fun _ => AtDb d1 s0.tpm s0.nextKid s0.cfg)
     (Triple.modS fun s h => ⟨by show _ = d1; rw [h.1], h.2.1, h.2.2⟩) fun _ => ?_
-  refine Triple.bind (Triple.tickT (AtDb.fi _ _ _)) fun _ => ?_
-  refine Triple.bind (Q' := fun _ => AtDb d2 s0.tpm s0.nextKid)
+  refine Triple.bind (Triple.tickT (AtDb.fi _ _ _ _)) fun _ => ?_
+  refine Triple.bind (Q' := fun _ => AtDb d2 s0.tpm s0.nextKid s0.cfg)
     (Triple.modS fun s h => ⟨by show _ = d2; rw [h.1], h.2.1, h.2.2⟩) fun _ => ?_
-  have fiB : FI (fun s => AtDb d2 s0.tpm s0.nextKid s ∧ s.com = s.cur) := fun _ _ h => h
-  refine Triple.bind (Q' := fun _ s => AtDb d2 s0.tpm s0.nextKid s ∧ s.com = s.cur) ?_ fun _ => ?_
+  have fiB : FI (fun s => AtDb d2 s0.tpm s0.nextKid s0.cfg s ∧ s.com = s.cur) := fun _ _ h => h
+  refine Triple.bind (Q' := fun _ s => AtDb d2 s0.tpm s0.nextKid s0.cfg s ∧ s.com = s.cur) ?_ fun _ => ?_
   · unfold commit
-    exact Triple.bind (Triple.tickT (AtDb.fi _ _ _)) fun _ => Triple.modS fun s h => ⟨h, rfl⟩
+    exact Triple.bind (Triple.tickT (AtDb.fi _ _ _ _)) fun _ => Triple.modS fun s h => ⟨h, rfl⟩
   refine Triple.bind (Triple.tickT fiB) fun _ => ?_
-  refine Triple.bind (Q' := fun _ s => AtDb d2 (s0.tpm.filter fun x => x ≠ k) s0.nextKid s ∧ s.com = s.cur)
-    (Triple.modS fun s h => ⟨⟨h.1.1, by show List.filter _ s.tpm = _; rw [h.1.2.1], h.1.2.2⟩, h.2⟩) fun _ => ?_
+  refine Triple.bind (Q' := fun _ s => AtDb d2 (removeFile s0.tpm (s0.cfg.fn k)) s0.nextKid s0.cfg s ∧ s.com = s.cur)
+    (Triple.modS fun s h => ⟨⟨h.1.1, by show removeFile s.tpm (s.cfg.fn k) = _; rw [h.1.2.1, h.1.2.2.2], h.1.2.2⟩, h.2⟩) fun _ => ?_
   refine Triple.modS fun s h => ?_
-  obtain ⟨⟨h1, h2, h3⟩, h4⟩ := h
+  obtain ⟨⟨h1, h2, h3, h3'⟩, h4⟩ := h
   exact { found := ⟨ir, kr, hir, hkr, by show s.cur.certs.rows = _; rw [h1]; rfl⟩
           keys := by show s.cur.keys.rows = _; rw [h1]; rfl
           ids := by show s.cur.ids = _; rw [h1]
-          tpm := h2, kid := h3, committed := h4, cache := rfl }
+          tpm := h2, kid := h3, cfg := h3', committed := h4, cache := rfl }
 
 /-- what a successful `del_key` loop over `ks` did -/
 structure DelKeysPost (ks : List KeyName) (s0 s' : Sys) : Prop where
@@ -1107,33 +1503,36 @@ structure DelKeysPost (ks : List KeyName) (s0 s' : Sys) : Prop where
   certs : ∀ c ∈ s'.cur.certs.rows, c ∈ s0.cur.certs.rows ∧
     ∀ kr ∈ s0.cur.keys.rows, kr.name ∈ ks → c.owner ≠ kr.rid
   ids : s'.cur.ids = s0.cur.ids
-  tpm : s'.tpm = s0.tpm.filter (fun x => !decide (x ∈ ks))
+  tpm : s'.tpm = s0.tpm.filter (fun e => !decide (e.1 ∈ ks.map s0.cfg.fn))
   kid : s'.nextKid = s0.nextKid
+  cfg : s'.cfg = s0.cfg
 
 theorem delKeys_spec (ks : List KeyName) : ∀ s0 : Sys, NamesU s0.cur.keys.rows →
-    Triple (AtDb s0.cur s0.tpm s0.nextKid) (delKeys ks) (fun _ s' => DelKeysPost ks s0 s') (fun _ _ => True) := by
+    Triple (AtDb s0.cur s0.tpm s0.nextKid s0.cfg) (delKeys ks) (fun _ s' => DelKeysPost ks s0 s') (fun _ _ => True) := by
   induction ks with
   | nil =>
     intro s0 _
     refine Triple.pure fun s h => ?_
-    obtain ⟨h1, h2, h3⟩ := h
+    obtain ⟨h1, h2, h3, h4⟩ := h
     exact { keys := by rw [h1]; simp only [List.not_mem_nil, decide_false, Bool.not_false]; exact (List.filter_eq_self.mpr fun _ _ => rfl).symm
             certs := fun c hc => ⟨by rw [← h1]; exact hc, fun _ _ hk => by cases hk⟩
             ids := by rw [h1]
-            tpm := by rw [h2]; simp only [List.not_mem_nil, decide_false, Bool.not_false]; exact (List.filter_eq_self.mpr fun _ _ => rfl).symm
-            kid := h3 }
+            tpm := by rw [h2]; simp only [List.map_nil, List.not_mem_nil, decide_false, Bool.not_false]; exact (List.filter_eq_self.mpr fun _ _ => rfl).symm
+            kid := h3
+            cfg := h4 }
   | cons k r ih =>
     intro s0 hn
     unfold delKeys
     refine Triple.bind (delKey_spec k s0) fun _ => ?_
     intro s1 h1
     have hn1 : NamesU s1.cur.keys.rows := by rw [h1.keys]; exact namesU_filter _ hn
-    have h2 := ih s1 hn1 s1 ⟨rfl, rfl, rfl⟩
+    have h2 := ih s1 hn1 s1 ⟨rfl, rfl, rfl, rfl⟩
     rcases hm : (delKeys r).run s1 with ⟨e | u, s'⟩ <;> simp only [hm] at h2 ⊢
     obtain ⟨ir, kr0, hir, hkr0, hcerts⟩ := h1.found
     obtain ⟨hkr0m, hkr0p⟩ := List.mem_of_find?_eq_some hkr0, List.find?_some hkr0
     simp only [Bool.and_eq_true, decide_eq_true_eq, beq_iff_eq] at hkr0p
-    refine { keys := ?_, certs := fun c hc => ?_, ids := h2.ids.trans h1.ids, tpm := ?_, kid := h2.kid.trans h1.kid }
+    refine { keys := ?_, certs := fun c hc => ?_, ids := h2.ids.trans h1.ids, tpm := ?_, kid := h2.kid.trans h1.kid,
+             cfg := h2.cfg.trans h1.cfg }
     · rw [h2.keys, h1.keys, List.filter_filter]
       apply List.filter_congr
       intro x _
@@ -1155,10 +1554,12 @@ theorem delKeys_spec (ks : List KeyName) : ∀ s0 : Sys, NamesU s0.cur.keys.rows
         refine hc2 kr ?_ hmem'
         rw [h1.keys, List.mem_filter]
         exact ⟨hkr, by simp [hk]⟩
-    · rw [h2.tpm, h1.tpm, List.filter_filter]
+    · rw [h2.tpm, h1.tpm, h1.cfg]
+      unfold removeFile
+      rw [List.filter_filter]
       apply List.filter_congr
       intro x _
-      by_cases hx : x = k <;> simp [hx]
+      by_cases hx : x.1 = s0.cfg.fn k <;> simp [hx]
 
 /-- what a successful `del_identity n` did (`ks` = the keys the identity had) -/
 structure DelIdPost (n : Nat) (s0 s' : Sys) : Prop where
@@ -1166,16 +1567,16 @@ structure DelIdPost (n : Nat) (s0 s' : Sys) : Prop where
     s'.cur.keys.rows = s0.cur.keys.rows.filter (fun r => !decide (r.name ∈ keyIter s0.cur ir.rid)) ∧
     (∀ c ∈ s'.cur.certs.rows, c ∈ s0.cur.certs.rows ∧
       ∀ kr ∈ s0.cur.keys.rows, kr.name ∈ keyIter s0.cur ir.rid → c.owner ≠ kr.rid) ∧
-    s'.tpm = s0.tpm.filter (fun x => !decide (x ∈ keyIter s0.cur ir.rid)) ∧ s'.nextKid = s0.nextKid
+    s'.tpm = s0.tpm.filter (fun e => !decide (e.1 ∈ (keyIter s0.cur ir.rid).map s0.cfg.fn)) ∧ s'.nextKid = s0.nextKid
   idsGone : s'.cur.ids.rows = s0.cur.ids.rows.filter (fun r => !decide (r.name = n))
   committed : s'.com = s'.cur
   cache : s'.cache = []
 
 theorem delIdentity_spec (n : Nat) (s0 : Sys) (hn : NamesU s0.cur.keys.rows) :
-    Triple (AtDb s0.cur s0.tpm s0.nextKid) (delIdentity n) (fun _ s' => DelIdPost n s0 s') (fun _ _ => True) := by
+    Triple (AtDb s0.cur s0.tpm s0.nextKid s0.cfg) (delIdentity n) (fun _ s' => DelIdPost n s0 s') (fun _ _ => True) := by
   unfold delIdentity
-  refine Triple.bind (lookupId_spec _ _ _ n) fun ir => ?_
-  refine Triple.bind (Q' := fun a s => (AtDb s0.cur s0.tpm s0.nextKid s ∧ idRow? s0.cur n = some ir) ∧ a = s)
+  refine Triple.bind (lookupId_spec _ _ _ _ n) fun ir => ?_
+  refine Triple.bind (Q' := fun a s => (AtDb s0.cur s0.tpm s0.nextKid s0.cfg s ∧ idRow? s0.cur n = some ir) ∧ a = s)
     Triple.getS fun a => ?_
   -- the part of the postcondition that the remaining steps do not touch
   let Core : Sys → Prop := fun s =>
@@ -1183,7 +1584,7 @@ theorem delIdentity_spec (n : Nat) (s0 : Sys) (hn : NamesU s0.cur.keys.rows) :
     s.cur.keys.rows = s0.cur.keys.rows.filter (fun r => !decide (r.name ∈ keyIter s0.cur ir.rid)) ∧
     (∀ c ∈ s.cur.certs.rows, c ∈ s0.cur.certs.rows ∧
       ∀ kr ∈ s0.cur.keys.rows, kr.name ∈ keyIter s0.cur ir.rid → c.owner ≠ kr.rid) ∧
-    s.tpm = s0.tpm.filter (fun x => !decide (x ∈ keyIter s0.cur ir.rid)) ∧ s.nextKid = s0.nextKid
+    s.tpm = s0.tpm.filter (fun e => !decide (e.1 ∈ (keyIter s0.cur ir.rid).map s0.cfg.fn)) ∧ s.nextKid = s0.nextKid
   refine Triple.bind (Q' := fun _ s => Core s ∧ s.cur.ids = s0.cur.ids) ?_ fun _ => ?_
   · intro s h
     obtain ⟨⟨h1, h2⟩, rfl⟩ := h
@@ -1221,7 +1622,7 @@ theorem pres_delIdentity (hJ : JOk J) (n : Nat) : Pres (SysInv J) (delIdentity n
   · intro s h
     obtain ⟨⟨hi, hir, hn⟩, rfl⟩ := h
     have h1 := pres_delKeys hJ (keyIter a.cur ir.rid) a hi
-    have h2 := delKeys_spec (keyIter a.cur ir.rid) a hi.cur.keys.names a ⟨rfl, rfl, rfl⟩
+    have h2 := delKeys_spec (keyIter a.cur ir.rid) a hi.cur.keys.names a ⟨rfl, rfl, rfl, rfl⟩
     rcases hm : (delKeys (keyIter a.cur ir.rid)).run a with ⟨e | u, s'⟩ <;> simp only [hm] at h1 h2 ⊢
     · exact h1
     · refine ⟨⟨h1, by rw [h2.ids]; exact hir, hn⟩, fun kr hkr hown => ?_⟩
@@ -1235,7 +1636,8 @@ theorem pres_delIdentity (hJ : JOk J) (n : Nat) : Pres (SysInv J) (delIdentity n
     (Triple.conseq (Triple.tick fiB) (fun _ h => h) (fun _ _ h => h) (fun _ _ h => h.1.1)) fun _ => ?_
   refine Triple.bind (Q' := fun _ => SysInv J) (Triple.modS fun s h => ?_) fun _ => ?_
   · obtain ⟨⟨h, hir, hn⟩, hk⟩ := h
-    refine ⟨⟨h.cur.ids.delete _, h.cur.keys, h.cur.certs⟩, h.com, h.cache, h.kids, h.keyKids, ⟨?_, h.link.2⟩, h.extra⟩
+    refine ⟨⟨h.cur.ids.delete _, h.cur.keys, h.cur.certs⟩, h.com, h.cache, h.kids, h.privs, h.matched, h.guard, h.fd,
+      ⟨?_, h.link.2⟩, h.extra⟩
     refine h.link.1.delIds _ fun kr hkr ir' hir' hp => ?_
     have hn' : ir'.name = n := by simpa using hp
     have : ir' = ir := eq_of_name_eq h.cur.ids.names hir' hir (hn'.trans hn.symm)
@@ -1246,35 +1648,37 @@ theorem pres_delCertViaKey (v : KeyName) (c : CertName) : Pres (SysInv J) (delCe
   Pres.bind (pres_lookupKey v) fun _ => Pres.raise _
 
 theorem pres_reopen : Pres (SysInv J) reopen :=
-  Pres.modS fun _ h => ⟨h.com, h.com, (fun _ he => by cases he), h.kids, ⟨h.keyKids.2, h.keyKids.2⟩, ⟨h.link.2, h.link.2⟩, h.extra⟩
+  Pres.modS fun s h => ⟨h.com, h.com, (fun _ he => by cases he), h.kids, h.privs, ⟨h.matched.2, h.matched.2⟩, h.guard,
+    FD.mono (s := s) rfl KN_reopen h.fd, ⟨h.link.2, h.link.2⟩, h.extra⟩
 
 theorem pres_getSigner (sel : Sel) (loc : Option Nat) : Pres (SysInv J) (getSigner sel loc) := by
   unfold getSigner
-  refine Triple.bind (Q' := fun a s => SysInv J s ∧ a.tpm = s.tpm) (fun s h => ⟨h, rfl⟩) fun a => ?_
-  refine Triple.bind (Q' := fun _ s => SysInv J s ∧ a.tpm = s.tpm)
+  refine Triple.bind (Q' := fun a s => SysInv J s ∧ a.tpm = s.tpm ∧ a.cfg = s.cfg) (fun s h => ⟨h, rfl, rfl⟩) fun a => ?_
+  refine Triple.bind (Q' := fun _ s => SysInv J s ∧ a.tpm = s.tpm ∧ a.cfg = s.cfg)
     (Triple.ofOpt (fun _ _ _ h => h) (fun _ _ h => h.1)) fun kc => ?_
   obtain ⟨k, c⟩ := kc
   dsimp only
   split
   · exact Triple.pure fun _ h => h.1
-  · refine Triple.bind (Q' := fun _ s => SysInv J s ∧ a.tpm = s.tpm) ?_ fun _ => ?_
-    · exact Triple.conseq (Triple.tick (P := fun s => SysInv J s ∧ a.tpm = s.tpm) fun s f h => ⟨SysInv.fi s f h.1, h.2⟩)
+  · refine Triple.bind (Q' := fun _ s => SysInv J s ∧ a.tpm = s.tpm ∧ a.cfg = s.cfg) ?_ fun _ => ?_
+    · exact Triple.conseq (Triple.tick (P := fun s => SysInv J s ∧ a.tpm = s.tpm ∧ a.cfg = s.cfg)
+          fun s f h => ⟨SysInv.fi s f h.1, h.2⟩)
         (fun _ h => h) (fun _ _ h => h) (fun _ _ h => h.1)
     · split
-      · rename_i hk
+      · rename_i p hk
         refine Triple.bind (Q' := fun _ s => SysInv J s) (Triple.modS fun s h => ?_) fun _ => Triple.pure fun _ h => h
-        refine ⟨h.1.cur, h.1.com, fun e he => ?_, h.1.kids, h.1.keyKids, h.1.link, h.1.extra⟩
+        refine ⟨h.1.cur, h.1.com, fun e he => ?_, h.1.kids, h.1.privs, h.1.matched, h.1.guard, h.1.fd, h.1.link, h.1.extra⟩
         simp only [List.mem_append, List.mem_singleton] at he
         rcases he with he | rfl
         · exact h.1.cache e he
-        · exact ⟨rfl, rfl, by rw [← h.2]; exact hk⟩
+        · exact ⟨rfl, rfl, by show fileGet s.tpm (s.cfg.fn k) = some p; rw [← h.2.1, ← h.2.2]; exact hk⟩
       · exact Triple.raise fun _ h => h.1
 
 theorem pres_prog (hJ : JOk J) (op : Op) : Pres (SysInv J) op.prog := by
   cases op <;> simp only [Op.prog]
   · exact Pres.bind (pres_newIdentity _) fun _ => Pres.pure _
   · exact Pres.bind (pres_touchIdentity hJ _) fun _ => Pres.pure _
-  · exact Pres.bind (pres_newKey hJ _ _) fun _ => Pres.pure _
+  · exact Pres.bind (pres_newKey hJ _ _ _) fun _ => Pres.pure _
   · exact Pres.bind (pres_importCert _ _) fun _ => Pres.pure _
   · exact Pres.bind (pres_setDefaultIdentity _) fun _ => Pres.pure _
   · exact Pres.bind (pres_setDefaultKey _ _) fun _ => Pres.pure _
@@ -1301,12 +1705,129 @@ theorem run_of_pres {I : Sys → Prop} (hfi : FI I) (hp : ∀ op, Pres I (Op.pro
   | nil => exact h
   | cons o r ih => exact ih _ (step_of_pres hfi hp s o h)
 
+theorem run_append (s : Sys) (a b : List (Op × Option Nat)) : run s (a ++ b) = run (run s a) b := by
+  induction a generalizing s with
+  | nil => rfl
+  | cons o r ih => exact ih _
+
+/-- no operation changes the configuration -/
+def CfgIs (c : Cfg) (s : Sys) : Prop := s.cfg = c
+
+theorem cfg_modCur (c : Cfg) (f : Db → Db) : Pres (CfgIs c) (modCur f) := Pres.modS fun _ h => h
+theorem cfg_tick (c : Cfg) : Pres (CfgIs c) tick := Pres.tick fun _ _ h => h
+theorem cfg_commit (c : Cfg) : Pres (CfgIs c) commit := Pres.bind (cfg_tick c) fun _ => Pres.modS fun _ h => h
+theorem cfg_lookupId (c : Cfg) (n : Nat) : Pres (CfgIs c) (lookupId n) := Pres.bind Pres.getS fun _ => Pres.ofOpt _ _
+theorem cfg_lookupKey (c : Cfg) (k : KeyName) : Pres (CfgIs c) (lookupKey k) :=
+  Pres.bind (cfg_lookupId c _) fun _ => Pres.bind Pres.getS fun _ => Pres.ofOpt _ _
+theorem cfg_execSetDefaultId (c : Cfg) (n : Nat) : Pres (CfgIs c) (execSetDefaultId n) :=
+  Pres.bind (cfg_tick c) fun _ => cfg_modCur c _
+theorem cfg_execSetDefaultKey (c : Cfg) (k : KeyName) : Pres (CfgIs c) (execSetDefaultKey k) :=
+  Pres.bind (cfg_tick c) fun _ => cfg_modCur c _
+theorem cfg_execSetDefaultCert (c : Cfg) (k : CertName) : Pres (CfgIs c) (execSetDefaultCert k) :=
+  Pres.bind (cfg_tick c) fun _ => cfg_modCur c _
+theorem cfg_execInsertId (c : Cfg) (n : Nat) : Pres (CfgIs c) (execInsertId n) := by
+  refine Pres.bind (cfg_tick c) fun _ => Pres.bind Pres.getS fun a => ?_
+  split
+  · exact Pres.raise _
+  · exact cfg_modCur c _
+theorem cfg_execInsertKey (c : Cfg) (o : Nat) (k : KeyName) (b : Nat) : Pres (CfgIs c) (execInsertKey o k b) := by
+  refine Pres.bind (cfg_tick c) fun _ => Pres.bind Pres.getS fun a => ?_
+  split
+  · exact Pres.raise _
+  · exact cfg_modCur c _
+theorem cfg_execInsertCert (c : Cfg) (k : KeyName) (ce : CertName) : Pres (CfgIs c) (execInsertCert k ce) := by
+  refine Pres.bind (cfg_tick c) fun _ => Pres.bind Pres.getS fun a => ?_
+  split
+  · exact Pres.raise _
+  · split
+    · exact Pres.raise _
+    · exact cfg_modCur c _
+theorem cfg_setDefaultIdentity (c : Cfg) (n : Nat) : Pres (CfgIs c) (setDefaultIdentity n) :=
+  Pres.bind (cfg_execSetDefaultId c n) fun _ => cfg_commit c
+theorem cfg_newKey (c : Cfg) (n : Nat) (bad : Bool) (spec : KeyIdSpec) : Pres (CfgIs c) (newKey n bad spec) := by
+  unfold newKey
+  exact Pres.bind (cfg_lookupId c n) fun _ => Pres.bind (cfg_tick c) fun _ => Pres.bind (Pres.raiseIf _ _) fun _ =>
+    Pres.bind Pres.getS fun _ => Pres.bind (Pres.ofOpt _ _) fun _ => Pres.bind (Pres.raiseIf _ _) fun _ =>
+    Pres.bind (Pres.modS fun _ h => h) fun _ => Pres.bind (cfg_tick c) fun _ => Pres.bind Pres.getS fun _ =>
+    Pres.bind (Pres.raiseIf _ _) fun _ => Pres.bind (cfg_execInsertKey c _ _ _) fun _ =>
+    Pres.bind (cfg_execInsertCert c _ _) fun _ => Pres.bind (cfg_commit c) fun _ => Pres.bind Pres.getS fun _ =>
+    Pres.bind (Pres.whenM (Pres.bind (cfg_execSetDefaultKey c _) fun _ => cfg_commit c)) fun _ =>
+    Pres.bind Pres.getS fun _ => Pres.bind (Pres.ofOpt _ _) fun _ => Pres.pure _
+theorem cfg_delKey (c : Cfg) (k : KeyName) : Pres (CfgIs c) (delKey k) := by
+  unfold delKey
+  exact Pres.bind (cfg_lookupKey c k) fun _ => Pres.bind (cfg_tick c) fun _ => Pres.bind (cfg_modCur c _) fun _ =>
+    Pres.bind (cfg_tick c) fun _ => Pres.bind (cfg_modCur c _) fun _ => Pres.bind (cfg_commit c) fun _ =>
+    Pres.bind (cfg_tick c) fun _ => Pres.bind (Pres.modS fun _ h => h) fun _ => Pres.modS fun _ h => h
+theorem cfg_delKeys (c : Cfg) (ks : List KeyName) : Pres (CfgIs c) (delKeys ks) := by
+  induction ks with
+  | nil => exact Pres.pure _
+  | cons k r ih => exact Pres.bind (cfg_delKey c k) fun _ => ih
+
+theorem cfg_prog (c : Cfg) (op : Op) : Pres (CfgIs c) op.prog := by
+  cases op <;> simp only [Op.prog]
+  · refine Pres.bind ?_ fun _ => Pres.pure _
+    unfold newIdentity
+    exact Pres.bind Pres.getS fun _ => Pres.bind (Pres.raiseIf _ _) fun _ => Pres.bind (cfg_execInsertId c _) fun _ =>
+      Pres.bind (cfg_commit c) fun _ => Pres.bind Pres.getS fun _ =>
+      Pres.bind (Pres.whenM (cfg_setDefaultIdentity c _)) fun _ => Pres.bind (cfg_lookupId c _) fun _ => Pres.pure _
+  · refine Pres.bind ?_ fun _ => Pres.pure _
+    unfold touchIdentity
+    exact Pres.bind Pres.getS fun _ =>
+      Pres.bind (Pres.whenM (Pres.bind (cfg_execInsertId c _) fun _ => Pres.bind (cfg_commit c) fun _ => cfg_newKey c _ _ _)) fun _ =>
+      Pres.bind Pres.getS fun _ => Pres.bind (Pres.whenM (cfg_setDefaultIdentity c _)) fun _ =>
+      Pres.bind (cfg_lookupId c _) fun _ => Pres.pure _
+  · exact Pres.bind (cfg_newKey c _ _ _) fun _ => Pres.pure _
+  · exact Pres.bind (Pres.bind (cfg_execInsertCert c _ _) fun _ => cfg_commit c) fun _ => Pres.pure _
+  · exact Pres.bind (cfg_setDefaultIdentity c _) fun _ => Pres.pure _
+  · exact Pres.bind (Pres.bind (cfg_lookupId c _) fun _ => Pres.bind (cfg_execSetDefaultKey c _) fun _ => cfg_commit c) fun _ => Pres.pure _
+  · exact Pres.bind (Pres.bind (cfg_lookupKey c _) fun _ => Pres.bind (cfg_execSetDefaultCert c _) fun _ => cfg_commit c) fun _ => Pres.pure _
+  · refine Pres.bind ?_ fun _ => Pres.pure _
+    unfold delIdentity
+    exact Pres.bind (cfg_lookupId c _) fun _ => Pres.bind Pres.getS fun _ => Pres.bind (cfg_delKeys c _) fun _ =>
+      Pres.bind (cfg_tick c) fun _ => Pres.bind (cfg_modCur c _) fun _ => Pres.bind (cfg_commit c) fun _ =>
+      Pres.modS fun _ h => h
+  · exact Pres.bind (cfg_delKey c _) fun _ => Pres.pure _
+  · refine Pres.bind ?_ fun _ => Pres.pure _
+    unfold delCert
+    exact Pres.bind (cfg_tick c) fun _ => Pres.bind (cfg_modCur c _) fun _ => Pres.bind (cfg_commit c) fun _ =>
+      Pres.modS fun _ h => h
+  · exact Pres.bind (Pres.bind (cfg_lookupKey c _) fun _ => Pres.raise _) fun _ => Pres.pure _
+  · refine Pres.bind ?_ fun _ => Pres.pure _
+    unfold getSigner
+    refine Pres.bind Pres.getS fun a => Pres.bind (Pres.ofOpt _ _) fun kc => ?_
+    obtain ⟨k, ce⟩ := kc
+    dsimp only
+    split
+    · exact Pres.pure _
+    · refine Pres.bind (cfg_tick c) fun _ => ?_
+      split
+      · exact Pres.bind (Pres.modS fun _ h => h) fun _ => Pres.pure _
+      · exact Pres.raise _
+  · exact Pres.bind (Pres.modS (I := CfgIs c) (f := fun s => { s with cur := s.com, cache := [] }) fun _ h => h) fun _ => Pres.pure _
+
+theorem step_cfg (s : Sys) (of : Op × Option Nat) : (step s of).2.cfg = s.cfg := by
+  have := cfg_prog s.cfg of.1 { s with fault := of.2 } rfl
+  unfold step
+  rcases hm : (Op.prog of.1).run { s with fault := of.2 } with ⟨_ | _, s'⟩ <;> simp only [hm] at this ⊢ <;> exact this
+
+theorem run_cfg (s : Sys) (ops : List (Op × Option Nat)) : (run s ops).cfg = s.cfg := by
+  induction ops generalizing s with
+  | nil => rfl
+  | cons o r ih => exact (ih _).trans (step_cfg s o)
+
+theorem step_fault (s : Sys) (of : Op × Option Nat) : (step s of).2.fault = none := rfl
+
+theorem run_fault (s : Sys) (ops : List (Op × Option Nat)) (h : s.fault = none) : (run s ops).fault = none := by
+  induction ops generalizing s with
+  | nil => exact h
+  | cons o r ih => exact ih _ (step_fault s o)
+
 /-- the plain invariant -/
 abbrev Inv : Sys → Prop := SysInv fun _ _ => True
 
-/-- the invariant holds after every history, with any storage failures injected -/
-theorem sysInv_run (ops : List (Op × Option Nat)) : Inv (run Sys.init ops) :=
-  run_of_pres SysInv.fi (pres_prog JOk.trivial) _ ops (SysInv.init True.intro)
+/-- the invariant holds after every history, with any storage failures injected, for every file-name function -/
+theorem sysInv_run (fn : KeyName → FileName) (ops : List (Op × Option Nat)) : Inv (run (Sys.init fn) ops) :=
+  run_of_pres SysInv.fi (pres_prog JOk.trivial) _ ops (SysInv.init fn True.intro)
 
 /-! ### Part 5: without storage failures every operation ends committed -/
 
@@ -1342,7 +1863,8 @@ theorem nf_execInsertId (n : Nat) : Triple NFc (execInsertId n) (fun _ => NFd) (
   · exact Triple.raise fun _ h => h
   · exact Triple.modS fun _ h => h.1
 
-theorem nf_execInsertKey (o : Nat) (k : KeyName) : Triple NFc (execInsertKey o k) (fun _ => NFd) (fun _ => NFc) := by
+theorem nf_execInsertKey (o : Nat) (k : KeyName) (b : Nat) :
+    Triple NFc (execInsertKey o k b) (fun _ => NFd) (fun _ => NFc) := by
   refine Triple.bind (Triple.tickNF fun _ h => h.1) fun _ => Triple.bind (Q' := fun _ => NFc) (fun _ h => h) fun a => ?_
   split
   · exact Triple.raise fun _ h => h
@@ -1391,16 +1913,17 @@ theorem nfc_newIdentity (n : Nat) : Pres NFc (newIdentity n) := by
     Pres.bind (Pres.whenM (nfc_setDefaultIdentity n)) fun _ =>
     Pres.bind (Pres.lookupId' n) fun _ => Pres.pure _
 
-/-- `new_key`: clean afterwards, unless it raised IntegrityError (the freshly generated key name or its
+/-- `new_key`: clean afterwards, unless it raised IntegrityError (the generated key name or its
     self-signed certificate's name was already in the database) -/
-theorem nfc_newKey (n : Nat) (bad : Bool) :
-    Triple NFc (newKey n bad) (fun _ => NFc) (fun e s => e = .integrityError ∨ NFc s) := by
+theorem nfc_newKey (n : Nat) (bad : Bool) (spec : KeyIdSpec) :
+    Triple NFc (newKey n bad spec) (fun _ => NFc) (fun e s => e = .integrityError ∨ NFc s) := by
   unfold newKey
   refine Triple.bind (nfc_pres (Pres.lookupId' n)) fun i => Triple.bind (nfc_pres nfc_tick) fun _ =>
     Triple.bind (nfc_pres (Pres.raiseIf _ _)) fun _ => Triple.bind (nfc_pres Pres.getS) fun a =>
+    Triple.bind (nfc_pres (Pres.ofOpt _ _)) fun kid => Triple.bind (nfc_pres (Pres.raiseIf _ _)) fun _ =>
     Triple.bind (Q' := fun _ => NFc) (Triple.modS fun _ h => h) fun _ => Triple.bind (nfc_pres nfc_tick) fun _ =>
     Triple.bind (nfc_pres Pres.getS) fun _ => Triple.bind (nfc_pres (Pres.raiseIf _ _)) fun _ =>
-    Triple.bind (Q' := fun _ => NFd) (Triple.conseq (nf_execInsertKey _ _) (fun _ h => h) (fun _ _ h => h) (fun _ _ h => Or.inr h)) fun _ =>
+    Triple.bind (Q' := fun _ => NFd) (Triple.conseq (nf_execInsertKey _ _ _) (fun _ h => h) (fun _ _ h => h) (fun _ _ h => Or.inr h)) fun _ =>
     Triple.bind (Q' := fun _ => NFd) (Triple.conseq (nf_execInsertCert_dirty _ _) (fun _ h => h) (fun _ _ h => h) (fun _ _ h => Or.inl h)) fun _ =>
     Triple.bind (Q' := fun _ => NFc) nf_commit fun _ => ?_
   exact nfc_pres (Pres.bind Pres.getS fun _ =>
@@ -1416,7 +1939,7 @@ theorem nfc_touchIdentity (n : Nat) :
   unfold whenM
   split
   · exact Triple.bind (Q' := fun _ => NFd) (Triple.conseq (nf_execInsertId n) (fun _ h => h) (fun _ _ h => h) (fun _ _ h => Or.inr h)) fun _ =>
-      Triple.bind (Q' := fun _ => NFc) nf_commit fun _ => nfc_newKey n false
+      Triple.bind (Q' := fun _ => NFc) nf_commit fun _ => nfc_newKey n false .random
   · exact Triple.pure fun _ h => h
 
 theorem nfc_importCert (k : KeyName) (c : CertName) : Pres NFc (importCert k c) :=
@@ -1468,7 +1991,7 @@ theorem nfc_getSigner (sel : Sel) (loc : Option Nat) : Pres NFc (getSigner sel l
 
 /-- is this operation one that generates a key? -/
 def Op.keyGen : Op → Bool
-  | .newKey _ _ => true
+  | .newKey _ _ _ => true
   | .touchIdentity _ => true
   | _ => false
 
@@ -1478,7 +2001,7 @@ theorem nfc_prog (op : Op) :
   · exact Triple.conseq (Pres.bind (nfc_newIdentity _) fun _ => Pres.pure _) (fun _ h => h) (fun _ _ h => h) (fun _ _ h => Or.inr h)
   · refine Triple.bind (Q' := fun _ => NFc) (Triple.conseq (nfc_touchIdentity _) (fun _ h => h) (fun _ _ h => h) ?_) fun _ => Triple.pure fun _ h => h
     exact fun e s h => h.elim (fun h => Or.inl ⟨trivial, h⟩) Or.inr
-  · refine Triple.bind (Q' := fun _ => NFc) (Triple.conseq (nfc_newKey _ _) (fun _ h => h) (fun _ _ h => h) ?_) fun _ => Triple.pure fun _ h => h
+  · refine Triple.bind (Q' := fun _ => NFc) (Triple.conseq (nfc_newKey _ _ _) (fun _ h => h) (fun _ _ h => h) ?_) fun _ => Triple.pure fun _ h => h
     exact fun e s h => h.elim (fun h => Or.inl ⟨trivial, h⟩) Or.inr
   · exact Triple.conseq (Pres.bind (nfc_importCert _ _) fun _ => Pres.pure _) (fun _ h => h) (fun _ _ h => h) (fun _ _ h => Or.inr h)
   · exact Triple.conseq (Pres.bind (nfc_setDefaultIdentity _) fun _ => Pres.pure _) (fun _ h => h) (fun _ _ h => h) (fun _ _ h => Or.inr h)
@@ -1492,5 +2015,116 @@ theorem nfc_prog (op : Op) :
   · exact Triple.conseq (Pres.bind (Pres.modS (I := NFc) (f := fun s => { s with cur := s.com, cache := [] }) fun _ h => ⟨h.1, rfl⟩) fun _ => Pres.pure _) (fun _ h => h) (fun _ _ h => h) (fun _ _ h => Or.inr h)
 
 end Clean
+
+/-! ### Part 6: `new_key` and ValueError -/
+
+/-- everything but the fault counter is as in `s0` -/
+def SameButFault (s0 s : Sys) : Prop :=
+  s.cfg = s0.cfg ∧ s.cur = s0.cur ∧ s.com = s0.com ∧ s.tpm = s0.tpm ∧ s.cache = s0.cache ∧ s.nextKid = s0.nextKid
+
+/-- a program that never raises ValueError -/
+def NoVE {α : Type} (m : M α) : Prop := Triple (fun _ => True) m (fun _ _ => True) (fun e _ => e ≠ .valueError)
+
+theorem NoVE.bind {α β : Type} {m : M α} {f : α → M β} (h1 : NoVE m) (h2 : ∀ a, NoVE (f a)) : NoVE (m >>= f) :=
+  Triple.bind h1 h2
+theorem NoVE.pure {α : Type} (a : α) : NoVE (pure a : M α) := Triple.pure fun _ h => h
+theorem NoVE.getS : NoVE getS := fun _ _ => trivial
+theorem NoVE.modS (f : Sys → Sys) : NoVE (modS f) := fun _ _ => trivial
+theorem NoVE.tick : NoVE tick := by
+  intro s _
+  rw [run_tick]
+  rcases s.fault with _ | _ | k
+  · trivial
+  · exact fun h => by cases h
+  · trivial
+theorem NoVE.raise {α : Type} {e : KErr} (h : e ≠ .valueError) : NoVE (raise e : M α) := Triple.raise fun _ _ => h
+theorem NoVE.ofOpt {α : Type} {e : KErr} (h : e ≠ .valueError) (o : Option α) : NoVE (ofOpt e o) :=
+  Triple.ofOpt (fun _ _ _ h => h) (fun _ _ _ => h)
+theorem NoVE.raiseIf {e : KErr} (h : e ≠ .valueError) (c : Bool) : NoVE (raiseIf c e) := by
+  unfold Keychain.raiseIf; split
+  · exact NoVE.raise h
+  · exact NoVE.pure _
+theorem NoVE.whenM {c : Bool} {m : M Unit} (h : NoVE m) : NoVE (whenM c m) := by
+  unfold Keychain.whenM; split
+  · exact h
+  · exact NoVE.pure _
+theorem NoVE.commit : NoVE commit := NoVE.bind NoVE.tick fun _ => NoVE.modS _
+theorem NoVE.execInsertKey (o : Nat) (k : KeyName) (b : Nat) : NoVE (execInsertKey o k b) := by
+  refine NoVE.bind NoVE.tick fun _ => NoVE.bind NoVE.getS fun a => ?_
+  split
+  · exact NoVE.raise (by decide)
+  · exact NoVE.modS _
+theorem NoVE.execInsertCert (k : KeyName) (c : CertName) : NoVE (execInsertCert k c) := by
+  refine NoVE.bind NoVE.tick fun _ => NoVE.bind NoVE.getS fun a => ?_
+  split
+  · exact NoVE.raise (by decide)
+  · split
+    · exact NoVE.raise (by decide)
+    · exact NoVE.modS _
+theorem NoVE.execSetDefaultKey (k : KeyName) : NoVE (execSetDefaultKey k) := NoVE.bind NoVE.tick fun _ => NoVE.modS _
+
+/-- `new_key` raises ValueError only before anything is written -/
+theorem newKey_valueError (n : Nat) (bad : Bool) (spec : KeyIdSpec) (s0 : Sys) :
+    Triple (SameButFault s0) (newKey n bad spec) (fun _ _ => True) (fun e s => e = .valueError → SameButFault s0 s) := by
+  unfold newKey
+  have fiS : FI (SameButFault s0) := fun _ _ h => h
+  have late : ∀ {α : Type} {m : M α}, NoVE m →
+      Triple (fun _ => True) m (fun _ _ => True) (fun e s => e = .valueError → SameButFault s0 s) :=
+    fun h => Triple.conseq h (fun _ h => h) (fun _ _ h => h) (fun _ _ h e => absurd e h)
+  refine Triple.bind (Q' := fun _ => SameButFault s0)
+    (Triple.bind (Q' := fun _ => SameButFault s0) (fun _ h => h) fun _ =>
+      Triple.ofOpt (fun _ _ _ h => h) (fun _ _ _ e => by cases e)) fun i => ?_
+  refine Triple.bind (Q' := fun _ => SameButFault s0)
+    (Triple.conseq (Triple.tick fiS) (fun _ h => h) (fun _ _ h => h) (fun _ _ h _ => h)) fun _ => ?_
+  refine Triple.bind (Q' := fun _ => SameButFault s0) ?_ fun _ => ?_
+  · unfold raiseIf; split
+    · exact Triple.raise fun _ h _ => h
+    · exact Triple.pure fun _ h => h
+  refine Triple.bind (Q' := fun _ => SameButFault s0) (fun _ h => h) fun a => ?_
+  refine Triple.bind (Q' := fun _ => SameButFault s0) (Triple.ofOpt (fun _ _ _ h => h) (fun _ _ h _ => h)) fun kid => ?_
+  refine Triple.bind (Q' := fun _ => SameButFault s0) ?_ fun _ => ?_
+  · unfold raiseIf; split
+    · exact Triple.raise fun _ h _ => h
+    · exact Triple.pure fun _ h => h
+  -- from here on the state changes, but no ValueError is raised any more
+  refine Triple.bind (Q' := fun _ _ => True) (fun _ _ => trivial) fun _ => late ?_
+  exact NoVE.bind NoVE.tick fun _ => NoVE.bind NoVE.getS fun _ => NoVE.bind (NoVE.raiseIf (by decide) _) fun _ =>
+    NoVE.bind (NoVE.execInsertKey _ _ _) fun _ => NoVE.bind (NoVE.execInsertCert _ _) fun _ =>
+    NoVE.bind NoVE.commit fun _ => NoVE.bind NoVE.getS fun _ =>
+    NoVE.bind (NoVE.whenM (NoVE.bind (NoVE.execSetDefaultKey _) fun _ => NoVE.commit)) fun _ =>
+    NoVE.bind NoVE.getS fun _ => NoVE.bind (NoVE.ofOpt (by decide) _) fun _ => NoVE.pure _
+
+/-- `new_key(n, key_id=x)` where the key name's private-key file exists and identity `n` exists: ValueError -/
+theorem newKey_refuses (n : Nat) (bad : Bool) (x : Nat) :
+    Triple (fun s => s.fault = none ∧ (idRow? s.cur n).isSome = true ∧ s.cfg.guard = true ∧
+        fileHas s.tpm (s.cfg.fn ⟨n, .lit x⟩) = true)
+      (newKey n bad (.explicit x)) (fun _ _ => False) (fun e _ => e = .valueError) := by
+  unfold newKey
+  let P : Sys → Prop := fun s => s.fault = none ∧ (idRow? s.cur n).isSome = true ∧ s.cfg.guard = true ∧
+        fileHas s.tpm (s.cfg.fn ⟨n, .lit x⟩) = true
+  refine Triple.bind (Q' := fun _ => P) ?_ fun i => ?_
+  · unfold lookupId
+    refine Triple.bind (Q' := fun a s => P s ∧ a = s) Triple.getS fun a => ?_
+    refine Triple.ofOpt (fun _ _ _ h => h.1) (fun s ho h => ?_)
+    obtain ⟨h, rfl⟩ := h
+    have h2 : (idRow? a.cur n).isSome = true := h.2.1
+    rw [ho] at h2
+    cases h2
+  refine Triple.bind (Q' := fun _ => P) (Triple.tickNF fun _ h => h.1) fun _ => ?_
+  refine Triple.bind (Q' := fun _ => P) ?_ fun _ => ?_
+  · unfold raiseIf; split
+    · exact Triple.raise fun _ _ => rfl
+    · exact Triple.pure fun _ h => h
+  refine Triple.bind (Q' := fun a s => P s ∧ a = s) Triple.getS fun a => ?_
+  refine Triple.bind (Q' := fun kid s => (P s ∧ a = s) ∧ kid = .lit x)
+    (Triple.ofOpt (fun kid _ ho h => ⟨h, by simpa [mkKid] using ho.symm⟩) (fun _ ho _ => by simp [mkKid] at ho)) fun kid => ?_
+  refine Triple.bind (Q' := fun _ _ => False) ?_ fun _ => fun _ h => h.elim
+  unfold raiseIf; split
+  · exact Triple.raise fun _ _ => rfl
+  · rename_i hc
+    refine Triple.pure fun s h => ?_
+    obtain ⟨⟨h, rfl⟩, rfl⟩ := h
+    rw [h.2.2.1, h.2.2.2] at hc
+    exact absurd rfl hc
 
 end Ndn.Keychain
